@@ -9,6 +9,12 @@ type nat =
 | O
 | S of nat
 
+(** val option_map : ('a1 -> 'a2) -> 'a1 option -> 'a2 option **)
+
+let option_map f = function
+| Some a -> Some (f a)
+| None -> None
+
 (** val fst : ('a1 * 'a2) -> 'a1 **)
 
 let fst = function
@@ -37,12 +43,30 @@ type comparison =
 | Lt
 | Gt
 
-(** val add : nat -> nat -> nat **)
+(** val compOpp : comparison -> comparison **)
 
-let rec add n0 m =
+let compOpp = function
+| Eq -> Eq
+| Lt -> Gt
+| Gt -> Lt
+
+module Coq__1 = struct
+ (** val add : nat -> nat -> nat **)
+ let rec add n0 m =
+   match n0 with
+   | O -> m
+   | S p -> S (add p m)
+end
+include Coq__1
+
+(** val sub : nat -> nat -> nat **)
+
+let rec sub n0 m =
   match n0 with
-  | O -> m
-  | S p -> S (add p m)
+  | O -> n0
+  | S k -> (match m with
+            | O -> n0
+            | S l -> sub k l)
 
 type positive =
 | XI of positive
@@ -53,8 +77,33 @@ type n =
 | N0
 | Npos of positive
 
+type z =
+| Z0
+| Zpos of positive
+| Zneg of positive
+
 module Nat =
  struct
+  (** val sub : nat -> nat -> nat **)
+
+  let rec sub n0 m =
+    match n0 with
+    | O -> n0
+    | S k -> (match m with
+              | O -> n0
+              | S l -> sub k l)
+
+  (** val eqb : nat -> nat -> bool **)
+
+  let rec eqb n0 m =
+    match n0 with
+    | O -> (match m with
+            | O -> true
+            | S _ -> false)
+    | S n' -> (match m with
+               | O -> false
+               | S m' -> eqb n' m')
+
   (** val leb : nat -> nat -> bool **)
 
   let rec leb n0 m =
@@ -68,6 +117,28 @@ module Nat =
 
   let ltb n0 m =
     leb (S n0) m
+
+  (** val divmod : nat -> nat -> nat -> nat -> nat * nat **)
+
+  let rec divmod x y q u =
+    match x with
+    | O -> (q, u)
+    | S x' ->
+      (match u with
+       | O -> divmod x' y (S q) y
+       | S u' -> divmod x' y q u')
+
+  (** val div : nat -> nat -> nat **)
+
+  let div x y = match y with
+  | O -> y
+  | S y' -> fst (divmod x y' O y')
+
+  (** val modulo : nat -> nat -> nat **)
+
+  let modulo x = function
+  | O -> x
+  | S y' -> sub y' (snd (divmod x y' O y'))
  end
 
 module Pos =
@@ -86,6 +157,45 @@ module Coq_Pos =
   | XI p -> XO (succ p)
   | XO p -> XI p
   | XH -> XO XH
+
+  (** val add : positive -> positive -> positive **)
+
+  let rec add x y =
+    match x with
+    | XI p ->
+      (match y with
+       | XI q -> XO (add_carry p q)
+       | XO q -> XI (add p q)
+       | XH -> XO (succ p))
+    | XO p ->
+      (match y with
+       | XI q -> XI (add p q)
+       | XO q -> XO (add p q)
+       | XH -> XI p)
+    | XH -> (match y with
+             | XI q -> XO (succ q)
+             | XO q -> XI q
+             | XH -> XO XH)
+
+  (** val add_carry : positive -> positive -> positive **)
+
+  and add_carry x y =
+    match x with
+    | XI p ->
+      (match y with
+       | XI q -> XI (add_carry p q)
+       | XO q -> XO (add_carry p q)
+       | XH -> XI (succ p))
+    | XO p ->
+      (match y with
+       | XI q -> XO (add_carry p q)
+       | XO q -> XI (add p q)
+       | XH -> XO (succ p))
+    | XH ->
+      (match y with
+       | XI q -> XI (succ q)
+       | XO q -> XO (succ q)
+       | XH -> XI XH)
 
   (** val pred_double : positive -> positive **)
 
@@ -153,6 +263,14 @@ module Coq_Pos =
        | XH -> double_pred_mask p)
     | XH -> IsNeg
 
+  (** val mul : positive -> positive -> positive **)
+
+  let rec mul x y =
+    match x with
+    | XI p -> add y (XO (mul p y))
+    | XO p -> XO (mul p y)
+    | XH -> y
+
   (** val size : positive -> positive **)
 
   let rec size = function
@@ -208,7 +326,7 @@ module Coq_Pos =
   (** val to_nat : positive -> nat **)
 
   let to_nat x =
-    iter_op add x (S O)
+    iter_op Coq__1.add x (S O)
 
   (** val of_succ_nat : nat -> positive **)
 
@@ -231,6 +349,15 @@ module N =
   | N0 -> N0
   | Npos p -> Npos (XO p)
 
+  (** val add : n -> n -> n **)
+
+  let add n0 m =
+    match n0 with
+    | N0 -> m
+    | Npos p -> (match m with
+                 | N0 -> n0
+                 | Npos q -> Npos (Coq_Pos.add p q))
+
   (** val sub : n -> n -> n **)
 
   let sub n0 m =
@@ -243,6 +370,15 @@ module N =
          (match Coq_Pos.sub_mask n' m' with
           | Coq_Pos.IsPos p -> Npos p
           | _ -> N0))
+
+  (** val mul : n -> n -> n **)
+
+  let mul n0 m =
+    match n0 with
+    | N0 -> N0
+    | Npos p -> (match m with
+                 | N0 -> N0
+                 | Npos q -> Npos (Coq_Pos.mul p q))
 
   (** val compare : n -> n -> comparison **)
 
@@ -272,6 +408,13 @@ module N =
     match compare x y with
     | Gt -> false
     | _ -> true
+
+  (** val ltb : n -> n -> bool **)
+
+  let ltb x y =
+    match compare x y with
+    | Lt -> true
+    | _ -> false
 
   (** val size : n -> n **)
 
@@ -366,17 +509,157 @@ let ascii_of_N = function
 let ascii_of_nat a =
   ascii_of_N (N.of_nat a)
 
+(** val n_of_digits : bool list -> n **)
+
+let rec n_of_digits = function
+| [] -> N0
+| b :: l' ->
+  N.add (if b then Npos XH else N0) (N.mul (Npos (XO XH)) (n_of_digits l'))
+
+(** val n_of_ascii : char -> n **)
+
+let n_of_ascii a =
+  (* If this appears, you're using Ascii internals. Please don't *)
+ (fun f c ->
+  let n = Char.code c in
+  let h i = (n land (1 lsl i)) <> 0 in
+  f (h 0) (h 1) (h 2) (h 3) (h 4) (h 5) (h 6) (h 7))
+    (fun a0 a1 a2 a3 a4 a5 a6 a7 ->
+    n_of_digits
+      (a0 :: (a1 :: (a2 :: (a3 :: (a4 :: (a5 :: (a6 :: (a7 :: [])))))))))
+    a
+
+(** val nat_of_ascii : char -> nat **)
+
+let nat_of_ascii a =
+  N.to_nat (n_of_ascii a)
+
 (** val map : ('a1 -> 'a2) -> 'a1 list -> 'a2 list **)
 
 let rec map f = function
 | [] -> []
 | a :: t -> (f a) :: (map f t)
 
+(** val fold_left : ('a1 -> 'a2 -> 'a1) -> 'a2 list -> 'a1 -> 'a1 **)
+
+let rec fold_left f l a0 =
+  match l with
+  | [] -> a0
+  | b :: t -> fold_left f t (f a0 b)
+
 (** val forallb : ('a1 -> bool) -> 'a1 list -> bool **)
 
 let rec forallb f = function
 | [] -> true
 | a :: l0 -> (&&) (f a) (forallb f l0)
+
+module Z =
+ struct
+  (** val double : z -> z **)
+
+  let double = function
+  | Z0 -> Z0
+  | Zpos p -> Zpos (XO p)
+  | Zneg p -> Zneg (XO p)
+
+  (** val succ_double : z -> z **)
+
+  let succ_double = function
+  | Z0 -> Zpos XH
+  | Zpos p -> Zpos (XI p)
+  | Zneg p -> Zneg (Coq_Pos.pred_double p)
+
+  (** val pred_double : z -> z **)
+
+  let pred_double = function
+  | Z0 -> Zneg XH
+  | Zpos p -> Zpos (Coq_Pos.pred_double p)
+  | Zneg p -> Zneg (XI p)
+
+  (** val pos_sub : positive -> positive -> z **)
+
+  let rec pos_sub x y =
+    match x with
+    | XI p ->
+      (match y with
+       | XI q -> double (pos_sub p q)
+       | XO q -> succ_double (pos_sub p q)
+       | XH -> Zpos (XO p))
+    | XO p ->
+      (match y with
+       | XI q -> pred_double (pos_sub p q)
+       | XO q -> double (pos_sub p q)
+       | XH -> Zpos (Coq_Pos.pred_double p))
+    | XH ->
+      (match y with
+       | XI q -> Zneg (XO q)
+       | XO q -> Zneg (Coq_Pos.pred_double q)
+       | XH -> Z0)
+
+  (** val add : z -> z -> z **)
+
+  let add x y =
+    match x with
+    | Z0 -> y
+    | Zpos x' ->
+      (match y with
+       | Z0 -> x
+       | Zpos y' -> Zpos (Coq_Pos.add x' y')
+       | Zneg y' -> pos_sub x' y')
+    | Zneg x' ->
+      (match y with
+       | Z0 -> x
+       | Zpos y' -> pos_sub y' x'
+       | Zneg y' -> Zneg (Coq_Pos.add x' y'))
+
+  (** val opp : z -> z **)
+
+  let opp = function
+  | Z0 -> Z0
+  | Zpos x0 -> Zneg x0
+  | Zneg x0 -> Zpos x0
+
+  (** val compare : z -> z -> comparison **)
+
+  let compare x y =
+    match x with
+    | Z0 -> (match y with
+             | Z0 -> Eq
+             | Zpos _ -> Lt
+             | Zneg _ -> Gt)
+    | Zpos x' -> (match y with
+                  | Zpos y' -> Coq_Pos.compare x' y'
+                  | _ -> Gt)
+    | Zneg x' ->
+      (match y with
+       | Zneg y' -> compOpp (Coq_Pos.compare x' y')
+       | _ -> Lt)
+
+  (** val leb : z -> z -> bool **)
+
+  let leb x y =
+    match compare x y with
+    | Gt -> false
+    | _ -> true
+
+  (** val abs : z -> z **)
+
+  let abs = function
+  | Zneg p -> Zpos p
+  | x -> x
+
+  (** val of_nat : nat -> z **)
+
+  let of_nat = function
+  | O -> Z0
+  | S n1 -> Zpos (Coq_Pos.of_succ_nat n1)
+
+  (** val of_N : n -> z **)
+
+  let of_N = function
+  | N0 -> Z0
+  | Npos p -> Zpos p
+ end
 
 (** val eqb0 : char list -> char list -> bool **)
 
@@ -396,6 +679,12 @@ let rec append s1 s2 =
   match s1 with
   | [] -> s2
   | c::s1' -> c::(append s1' s2)
+
+(** val length0 : char list -> nat **)
+
+let rec length0 = function
+| [] -> O
+| _::s' -> S (length0 s')
 
 type err =
 | ErrValue
@@ -480,19 +769,102 @@ let rec dec_N_fuel fuel n0 acc =
 let dec_N n0 =
   dec_N_fuel (S (N.to_nat (N.size n0))) n0 []
 
+(** val dec_Z : z -> char list **)
+
+let dec_Z = function
+| Z0 -> '0'::[]
+| Zpos p -> dec_N (Npos p)
+| Zneg p -> append ('-'::[]) (dec_N (Npos p))
+
 (** val dec_nat : nat -> char list **)
 
 let dec_nat n0 =
   dec_N (N.of_nat n0)
 
+(** val is_digit : char -> bool **)
+
+let is_digit c =
+  let n0 = nat_of_ascii c in
+  (&&)
+    (Nat.leb (S (S (S (S (S (S (S (S (S (S (S (S (S (S (S (S (S (S (S (S (S
+      (S (S (S (S (S (S (S (S (S (S (S (S (S (S (S (S (S (S (S (S (S (S (S (S
+      (S (S (S O)))))))))))))))))))))))))))))))))))))))))))))))) n0)
+    (Nat.leb n0 (S (S (S (S (S (S (S (S (S (S (S (S (S (S (S (S (S (S (S (S
+      (S (S (S (S (S (S (S (S (S (S (S (S (S (S (S (S (S (S (S (S (S (S (S (S
+      (S (S (S (S (S (S (S (S (S (S (S (S (S
+      O))))))))))))))))))))))))))))))))))))))))))))))))))))))))))
+
+(** val parse_N_acc : char list -> n -> n option **)
+
+let rec parse_N_acc s acc =
+  match s with
+  | [] -> Some acc
+  | c::r ->
+    if is_digit c
+    then parse_N_acc r
+           (N.add (N.mul acc (Npos (XO (XI (XO XH)))))
+             (N.of_nat
+               (sub (nat_of_ascii c) (S (S (S (S (S (S (S (S (S (S (S (S (S
+                 (S (S (S (S (S (S (S (S (S (S (S (S (S (S (S (S (S (S (S (S
+                 (S (S (S (S (S (S (S (S (S (S (S (S (S (S (S
+                 O)))))))))))))))))))))))))))))))))))))))))))))))))))
+    else None
+
+(** val parse_N : char list -> n option **)
+
+let parse_N s = match s with
+| [] -> None
+| _::_ -> parse_N_acc s N0
+
+(** val parse_Z : char list -> z option **)
+
+let parse_Z s = match s with
+| [] -> option_map Z.of_N (parse_N s)
+| a::r ->
+  (* If this appears, you're using Ascii internals. Please don't *)
+ (fun f c ->
+  let n = Char.code c in
+  let h i = (n land (1 lsl i)) <> 0 in
+  f (h 0) (h 1) (h 2) (h 3) (h 4) (h 5) (h 6) (h 7))
+    (fun b b0 b1 b2 b3 b4 b5 b6 ->
+    if b
+    then if b0
+         then option_map Z.of_N (parse_N s)
+         else if b1
+              then if b2
+                   then if b3
+                        then option_map Z.of_N (parse_N s)
+                        else if b4
+                             then if b5
+                                  then option_map Z.of_N (parse_N s)
+                                  else if b6
+                                       then option_map Z.of_N (parse_N s)
+                                       else option_map (fun n0 ->
+                                              Z.opp (Z.of_N n0)) (parse_N r)
+                             else option_map Z.of_N (parse_N s)
+                   else option_map Z.of_N (parse_N s)
+              else option_map Z.of_N (parse_N s)
+    else option_map Z.of_N (parse_N s))
+    a
+
 type sexp =
 | SAtom of char list
 | SList of sexp list
+
+(** val s_str : char list -> sexp **)
+
+let s_str s =
+  SAtom s
 
 (** val s_strs : char list list -> sexp **)
 
 let s_strs l =
   SList (map (fun x -> SAtom x) l)
+
+(** val s_Z : z -> sexp **)
+
+let s_Z z0 =
+  SAtom (dec_Z z0)
 
 (** val s_nat : nat -> sexp **)
 
@@ -546,6 +918,302 @@ let rec d_list d = function
 let d_strs = function
 | SAtom _ -> None
 | SList l -> d_list d_str l
+
+(** val d_Z : sexp -> z option **)
+
+let d_Z = function
+| SAtom a -> parse_Z a
+| SList _ -> None
+
+(** val d_bool : sexp -> bool option **)
+
+let d_bool = function
+| SAtom s0 ->
+  (match s0 with
+   | [] -> None
+   | a::s1 ->
+     (* If this appears, you're using Ascii internals. Please don't *)
+ (fun f c ->
+  let n = Char.code c in
+  let h i = (n land (1 lsl i)) <> 0 in
+  f (h 0) (h 1) (h 2) (h 3) (h 4) (h 5) (h 6) (h 7))
+       (fun b b0 b1 b2 b3 b4 b5 b6 ->
+       if b
+       then None
+       else if b0
+            then if b1
+                 then if b2
+                      then None
+                      else if b3
+                           then None
+                           else if b4
+                                then if b5
+                                     then if b6
+                                          then None
+                                          else (match s1 with
+                                                | [] -> None
+                                                | a0::s2 ->
+                                                  (* If this appears, you're using Ascii internals. Please don't *)
+ (fun f c ->
+  let n = Char.code c in
+  let h i = (n land (1 lsl i)) <> 0 in
+  f (h 0) (h 1) (h 2) (h 3) (h 4) (h 5) (h 6) (h 7))
+                                                    (fun b7 b8 b9 b10 b11 b12 b13 b14 ->
+                                                    if b7
+                                                    then if b8
+                                                         then None
+                                                         else if b9
+                                                              then None
+                                                              else if b10
+                                                                   then None
+                                                                   else 
+                                                                    if b11
+                                                                    then None
+                                                                    else 
+                                                                    if b12
+                                                                    then 
+                                                                    if b13
+                                                                    then 
+                                                                    if b14
+                                                                    then None
+                                                                    else 
+                                                                    (match s2 with
+                                                                    | [] ->
+                                                                    None
+                                                                    | a1::s3 ->
+                                                                    (* If this appears, you're using Ascii internals. Please don't *)
+ (fun f c ->
+  let n = Char.code c in
+  let h i = (n land (1 lsl i)) <> 0 in
+  f (h 0) (h 1) (h 2) (h 3) (h 4) (h 5) (h 6) (h 7))
+                                                                    (fun b15 b16 b17 b18 b19 b20 b21 b22 ->
+                                                                    if b15
+                                                                    then None
+                                                                    else 
+                                                                    if b16
+                                                                    then None
+                                                                    else 
+                                                                    if b17
+                                                                    then 
+                                                                    if b18
+                                                                    then 
+                                                                    if b19
+                                                                    then None
+                                                                    else 
+                                                                    if b20
+                                                                    then 
+                                                                    if b21
+                                                                    then 
+                                                                    if b22
+                                                                    then None
+                                                                    else 
+                                                                    (match s3 with
+                                                                    | [] ->
+                                                                    None
+                                                                    | a2::s4 ->
+                                                                    (* If this appears, you're using Ascii internals. Please don't *)
+ (fun f c ->
+  let n = Char.code c in
+  let h i = (n land (1 lsl i)) <> 0 in
+  f (h 0) (h 1) (h 2) (h 3) (h 4) (h 5) (h 6) (h 7))
+                                                                    (fun b23 b24 b25 b26 b27 b28 b29 b30 ->
+                                                                    if b23
+                                                                    then 
+                                                                    if b24
+                                                                    then 
+                                                                    if b25
+                                                                    then None
+                                                                    else 
+                                                                    if b26
+                                                                    then None
+                                                                    else 
+                                                                    if b27
+                                                                    then 
+                                                                    if b28
+                                                                    then 
+                                                                    if b29
+                                                                    then 
+                                                                    if b30
+                                                                    then None
+                                                                    else 
+                                                                    (match s4 with
+                                                                    | [] ->
+                                                                    None
+                                                                    | a3::s5 ->
+                                                                    (* If this appears, you're using Ascii internals. Please don't *)
+ (fun f c ->
+  let n = Char.code c in
+  let h i = (n land (1 lsl i)) <> 0 in
+  f (h 0) (h 1) (h 2) (h 3) (h 4) (h 5) (h 6) (h 7))
+                                                                    (fun b31 b32 b33 b34 b35 b36 b37 b38 ->
+                                                                    if b31
+                                                                    then 
+                                                                    if b32
+                                                                    then None
+                                                                    else 
+                                                                    if b33
+                                                                    then 
+                                                                    if b34
+                                                                    then None
+                                                                    else 
+                                                                    if b35
+                                                                    then None
+                                                                    else 
+                                                                    if b36
+                                                                    then 
+                                                                    if b37
+                                                                    then 
+                                                                    if b38
+                                                                    then None
+                                                                    else 
+                                                                    (match s5 with
+                                                                    | [] ->
+                                                                    Some false
+                                                                    | _::_ ->
+                                                                    None)
+                                                                    else None
+                                                                    else None
+                                                                    else None
+                                                                    else None)
+                                                                    a3)
+                                                                    else None
+                                                                    else None
+                                                                    else None
+                                                                    else None
+                                                                    else None)
+                                                                    a2)
+                                                                    else None
+                                                                    else None
+                                                                    else None
+                                                                    else None)
+                                                                    a1)
+                                                                    else None
+                                                                    else None
+                                                    else None)
+                                                    a0)
+                                     else None
+                                else None
+                 else None
+            else if b1
+                 then if b2
+                      then None
+                      else if b3
+                           then if b4
+                                then if b5
+                                     then if b6
+                                          then None
+                                          else (match s1 with
+                                                | [] -> None
+                                                | a0::s2 ->
+                                                  (* If this appears, you're using Ascii internals. Please don't *)
+ (fun f c ->
+  let n = Char.code c in
+  let h i = (n land (1 lsl i)) <> 0 in
+  f (h 0) (h 1) (h 2) (h 3) (h 4) (h 5) (h 6) (h 7))
+                                                    (fun b7 b8 b9 b10 b11 b12 b13 b14 ->
+                                                    if b7
+                                                    then None
+                                                    else if b8
+                                                         then if b9
+                                                              then None
+                                                              else if b10
+                                                                   then None
+                                                                   else 
+                                                                    if b11
+                                                                    then 
+                                                                    if b12
+                                                                    then 
+                                                                    if b13
+                                                                    then 
+                                                                    if b14
+                                                                    then None
+                                                                    else 
+                                                                    (match s2 with
+                                                                    | [] ->
+                                                                    None
+                                                                    | a1::s3 ->
+                                                                    (* If this appears, you're using Ascii internals. Please don't *)
+ (fun f c ->
+  let n = Char.code c in
+  let h i = (n land (1 lsl i)) <> 0 in
+  f (h 0) (h 1) (h 2) (h 3) (h 4) (h 5) (h 6) (h 7))
+                                                                    (fun b15 b16 b17 b18 b19 b20 b21 b22 ->
+                                                                    if b15
+                                                                    then 
+                                                                    if b16
+                                                                    then None
+                                                                    else 
+                                                                    if b17
+                                                                    then 
+                                                                    if b18
+                                                                    then None
+                                                                    else 
+                                                                    if b19
+                                                                    then 
+                                                                    if b20
+                                                                    then 
+                                                                    if b21
+                                                                    then 
+                                                                    if b22
+                                                                    then None
+                                                                    else 
+                                                                    (match s3 with
+                                                                    | [] ->
+                                                                    None
+                                                                    | a2::s4 ->
+                                                                    (* If this appears, you're using Ascii internals. Please don't *)
+ (fun f c ->
+  let n = Char.code c in
+  let h i = (n land (1 lsl i)) <> 0 in
+  f (h 0) (h 1) (h 2) (h 3) (h 4) (h 5) (h 6) (h 7))
+                                                                    (fun b23 b24 b25 b26 b27 b28 b29 b30 ->
+                                                                    if b23
+                                                                    then 
+                                                                    if b24
+                                                                    then None
+                                                                    else 
+                                                                    if b25
+                                                                    then 
+                                                                    if b26
+                                                                    then None
+                                                                    else 
+                                                                    if b27
+                                                                    then None
+                                                                    else 
+                                                                    if b28
+                                                                    then 
+                                                                    if b29
+                                                                    then 
+                                                                    if b30
+                                                                    then None
+                                                                    else 
+                                                                    (match s4 with
+                                                                    | [] ->
+                                                                    Some true
+                                                                    | _::_ ->
+                                                                    None)
+                                                                    else None
+                                                                    else None
+                                                                    else None
+                                                                    else None)
+                                                                    a2)
+                                                                    else None
+                                                                    else None
+                                                                    else None
+                                                                    else None
+                                                                    else None)
+                                                                    a1)
+                                                                    else None
+                                                                    else None
+                                                                    else None
+                                                         else None)
+                                                    a0)
+                                     else None
+                                else None
+                           else None
+                 else None)
+       a)
+| SList _ -> None
 
 (** val bad_input : sexp **)
 
@@ -894,27 +1562,2825 @@ let audit e doc =
 (** val math_rows : mrow list **)
 
 let math_rows =
-  []
+  { m_py = ('s'::('i'::('n'::[]))); m_cpp =
+    ('s'::('t'::('d'::(':'::(':'::('s'::('i'::('n'::[])))))))); m_inc =
+    (('c'::('m'::('a'::('t'::('h'::[]))))) :: []); m_ret =
+    ('d'::('o'::('u'::('b'::('l'::('e'::[])))))) } :: ({ m_py =
+    ('c'::('o'::('s'::[]))); m_cpp =
+    ('s'::('t'::('d'::(':'::(':'::('c'::('o'::('s'::[])))))))); m_inc =
+    (('c'::('m'::('a'::('t'::('h'::[]))))) :: []); m_ret =
+    ('d'::('o'::('u'::('b'::('l'::('e'::[])))))) } :: ({ m_py =
+    ('t'::('a'::('n'::[]))); m_cpp =
+    ('s'::('t'::('d'::(':'::(':'::('t'::('a'::('n'::[])))))))); m_inc =
+    (('c'::('m'::('a'::('t'::('h'::[]))))) :: []); m_ret =
+    ('d'::('o'::('u'::('b'::('l'::('e'::[])))))) } :: ({ m_py =
+    ('a'::('c'::('o'::('s'::[])))); m_cpp =
+    ('s'::('t'::('d'::(':'::(':'::('a'::('c'::('o'::('s'::[])))))))));
+    m_inc = (('c'::('m'::('a'::('t'::('h'::[]))))) :: []); m_ret =
+    ('d'::('o'::('u'::('b'::('l'::('e'::[])))))) } :: ({ m_py =
+    ('a'::('s'::('i'::('n'::[])))); m_cpp =
+    ('s'::('t'::('d'::(':'::(':'::('a'::('s'::('i'::('n'::[])))))))));
+    m_inc = (('c'::('m'::('a'::('t'::('h'::[]))))) :: []); m_ret =
+    ('d'::('o'::('u'::('b'::('l'::('e'::[])))))) } :: ({ m_py =
+    ('a'::('t'::('a'::('n'::[])))); m_cpp =
+    ('s'::('t'::('d'::(':'::(':'::('a'::('t'::('a'::('n'::[])))))))));
+    m_inc = (('c'::('m'::('a'::('t'::('h'::[]))))) :: []); m_ret =
+    ('d'::('o'::('u'::('b'::('l'::('e'::[])))))) } :: ({ m_py =
+    ('a'::('t'::('a'::('n'::('2'::[]))))); m_cpp =
+    ('s'::('t'::('d'::(':'::(':'::('a'::('t'::('a'::('n'::('2'::[]))))))))));
+    m_inc = (('c'::('m'::('a'::('t'::('h'::[]))))) :: []); m_ret =
+    ('d'::('o'::('u'::('b'::('l'::('e'::[])))))) } :: ({ m_py =
+    ('s'::('i'::('n'::('h'::[])))); m_cpp =
+    ('s'::('t'::('d'::(':'::(':'::('s'::('i'::('n'::('h'::[])))))))));
+    m_inc = (('c'::('m'::('a'::('t'::('h'::[]))))) :: []); m_ret =
+    ('d'::('o'::('u'::('b'::('l'::('e'::[])))))) } :: ({ m_py =
+    ('c'::('o'::('s'::('h'::[])))); m_cpp =
+    ('s'::('t'::('d'::(':'::(':'::('c'::('o'::('s'::('h'::[])))))))));
+    m_inc = (('c'::('m'::('a'::('t'::('h'::[]))))) :: []); m_ret =
+    ('d'::('o'::('u'::('b'::('l'::('e'::[])))))) } :: ({ m_py =
+    ('t'::('a'::('n'::('h'::[])))); m_cpp =
+    ('s'::('t'::('d'::(':'::(':'::('t'::('a'::('n'::('h'::[])))))))));
+    m_inc = (('c'::('m'::('a'::('t'::('h'::[]))))) :: []); m_ret =
+    ('d'::('o'::('u'::('b'::('l'::('e'::[])))))) } :: ({ m_py =
+    ('a'::('s'::('i'::('n'::('h'::[]))))); m_cpp =
+    ('s'::('t'::('d'::(':'::(':'::('a'::('s'::('i'::('n'::('h'::[]))))))))));
+    m_inc = (('c'::('m'::('a'::('t'::('h'::[]))))) :: []); m_ret =
+    ('d'::('o'::('u'::('b'::('l'::('e'::[])))))) } :: ({ m_py =
+    ('a'::('c'::('o'::('s'::('h'::[]))))); m_cpp =
+    ('s'::('t'::('d'::(':'::(':'::('a'::('c'::('o'::('s'::('h'::[]))))))))));
+    m_inc = (('c'::('m'::('a'::('t'::('h'::[]))))) :: []); m_ret =
+    ('d'::('o'::('u'::('b'::('l'::('e'::[])))))) } :: ({ m_py =
+    ('a'::('t'::('a'::('n'::('h'::[]))))); m_cpp =
+    ('s'::('t'::('d'::(':'::(':'::('a'::('t'::('a'::('n'::('h'::[]))))))))));
+    m_inc = (('c'::('m'::('a'::('t'::('h'::[]))))) :: []); m_ret =
+    ('d'::('o'::('u'::('b'::('l'::('e'::[])))))) } :: ({ m_py =
+    ('e'::('x'::('p'::[]))); m_cpp =
+    ('s'::('t'::('d'::(':'::(':'::('e'::('x'::('p'::[])))))))); m_inc =
+    (('c'::('m'::('a'::('t'::('h'::[]))))) :: []); m_ret =
+    ('d'::('o'::('u'::('b'::('l'::('e'::[])))))) } :: ({ m_py =
+    ('l'::('d'::('e'::('x'::('p'::[]))))); m_cpp =
+    ('s'::('t'::('d'::(':'::(':'::('l'::('d'::('e'::('x'::('p'::[]))))))))));
+    m_inc = (('c'::('m'::('a'::('t'::('h'::[]))))) :: []); m_ret =
+    ('d'::('o'::('u'::('b'::('l'::('e'::[])))))) } :: ({ m_py =
+    ('l'::('o'::('g'::[]))); m_cpp =
+    ('s'::('t'::('d'::(':'::(':'::('l'::('o'::('g'::[])))))))); m_inc =
+    (('c'::('m'::('a'::('t'::('h'::[]))))) :: []); m_ret =
+    ('d'::('o'::('u'::('b'::('l'::('e'::[])))))) } :: ({ m_py =
+    ('l'::('n'::[])); m_cpp =
+    ('s'::('t'::('d'::(':'::(':'::('l'::('o'::('g'::[])))))))); m_inc =
+    (('c'::('m'::('a'::('t'::('h'::[]))))) :: []); m_ret =
+    ('d'::('o'::('u'::('b'::('l'::('e'::[])))))) } :: ({ m_py =
+    ('l'::('o'::('g'::('1'::('0'::[]))))); m_cpp =
+    ('s'::('t'::('d'::(':'::(':'::('l'::('o'::('g'::('1'::('0'::[]))))))))));
+    m_inc = (('c'::('m'::('a'::('t'::('h'::[]))))) :: []); m_ret =
+    ('d'::('o'::('u'::('b'::('l'::('e'::[])))))) } :: ({ m_py =
+    ('e'::('x'::('p'::('2'::[])))); m_cpp =
+    ('s'::('t'::('d'::(':'::(':'::('e'::('x'::('p'::('2'::[])))))))));
+    m_inc = (('c'::('m'::('a'::('t'::('h'::[]))))) :: []); m_ret =
+    ('d'::('o'::('u'::('b'::('l'::('e'::[])))))) } :: ({ m_py =
+    ('e'::('x'::('p'::('m'::('1'::[]))))); m_cpp =
+    ('s'::('t'::('d'::(':'::(':'::('e'::('x'::('p'::('m'::('1'::[]))))))))));
+    m_inc = (('c'::('m'::('a'::('t'::('h'::[]))))) :: []); m_ret =
+    ('d'::('o'::('u'::('b'::('l'::('e'::[])))))) } :: ({ m_py =
+    ('i'::('l'::('o'::('g'::('b'::[]))))); m_cpp =
+    ('s'::('t'::('d'::(':'::(':'::('i'::('l'::('o'::('g'::('b'::[]))))))))));
+    m_inc = (('c'::('m'::('a'::('t'::('h'::[]))))) :: []); m_ret =
+    ('d'::('o'::('u'::('b'::('l'::('e'::[])))))) } :: ({ m_py =
+    ('l'::('o'::('g'::('1'::('p'::[]))))); m_cpp =
+    ('s'::('t'::('d'::(':'::(':'::('l'::('o'::('g'::('1'::('p'::[]))))))))));
+    m_inc = (('c'::('m'::('a'::('t'::('h'::[]))))) :: []); m_ret =
+    ('d'::('o'::('u'::('b'::('l'::('e'::[])))))) } :: ({ m_py =
+    ('l'::('o'::('g'::('2'::[])))); m_cpp =
+    ('s'::('t'::('d'::(':'::(':'::('l'::('o'::('g'::('2'::[])))))))));
+    m_inc = (('c'::('m'::('a'::('t'::('h'::[]))))) :: []); m_ret =
+    ('d'::('o'::('u'::('b'::('l'::('e'::[])))))) } :: ({ m_py =
+    ('s'::('c'::('a'::('l'::('b'::('n'::[])))))); m_cpp =
+    ('s'::('t'::('d'::(':'::(':'::('s'::('c'::('a'::('l'::('b'::('n'::[])))))))))));
+    m_inc = (('c'::('m'::('a'::('t'::('h'::[]))))) :: []); m_ret =
+    ('d'::('o'::('u'::('b'::('l'::('e'::[])))))) } :: ({ m_py =
+    ('s'::('c'::('a'::('l'::('b'::('l'::('n'::[]))))))); m_cpp =
+    ('s'::('t'::('d'::(':'::(':'::('s'::('c'::('a'::('l'::('b'::('l'::('n'::[]))))))))))));
+    m_inc = (('c'::('m'::('a'::('t'::('h'::[]))))) :: []); m_ret =
+    ('d'::('o'::('u'::('b'::('l'::('e'::[])))))) } :: ({ m_py =
+    ('p'::('o'::('w'::[]))); m_cpp =
+    ('s'::('t'::('d'::(':'::(':'::('p'::('o'::('w'::[])))))))); m_inc =
+    (('c'::('m'::('a'::('t'::('h'::[]))))) :: []); m_ret =
+    ('d'::('o'::('u'::('b'::('l'::('e'::[])))))) } :: ({ m_py =
+    ('s'::('q'::('r'::('t'::[])))); m_cpp =
+    ('s'::('t'::('d'::(':'::(':'::('s'::('q'::('r'::('t'::[])))))))));
+    m_inc = (('c'::('m'::('a'::('t'::('h'::[]))))) :: []); m_ret =
+    ('d'::('o'::('u'::('b'::('l'::('e'::[])))))) } :: ({ m_py =
+    ('c'::('b'::('r'::('t'::[])))); m_cpp =
+    ('s'::('t'::('d'::(':'::(':'::('c'::('b'::('r'::('t'::[])))))))));
+    m_inc = (('c'::('m'::('a'::('t'::('h'::[]))))) :: []); m_ret =
+    ('d'::('o'::('u'::('b'::('l'::('e'::[])))))) } :: ({ m_py =
+    ('h'::('y'::('p'::('o'::('t'::[]))))); m_cpp =
+    ('s'::('t'::('d'::(':'::(':'::('h'::('y'::('p'::('o'::('t'::[]))))))))));
+    m_inc = (('c'::('m'::('a'::('t'::('h'::[]))))) :: []); m_ret =
+    ('d'::('o'::('u'::('b'::('l'::('e'::[])))))) } :: ({ m_py =
+    ('e'::('r'::('f'::[]))); m_cpp =
+    ('s'::('t'::('d'::(':'::(':'::('e'::('r'::('f'::[])))))))); m_inc =
+    (('c'::('m'::('a'::('t'::('h'::[]))))) :: []); m_ret =
+    ('d'::('o'::('u'::('b'::('l'::('e'::[])))))) } :: ({ m_py =
+    ('e'::('r'::('f'::('c'::[])))); m_cpp =
+    ('s'::('t'::('d'::(':'::(':'::('e'::('r'::('f'::('c'::[])))))))));
+    m_inc = (('c'::('m'::('a'::('t'::('h'::[]))))) :: []); m_ret =
+    ('d'::('o'::('u'::('b'::('l'::('e'::[])))))) } :: ({ m_py =
+    ('t'::('g'::('a'::('m'::('m'::('a'::[])))))); m_cpp =
+    ('s'::('t'::('d'::(':'::(':'::('t'::('g'::('a'::('m'::('m'::('a'::[])))))))))));
+    m_inc = (('c'::('m'::('a'::('t'::('h'::[]))))) :: []); m_ret =
+    ('d'::('o'::('u'::('b'::('l'::('e'::[])))))) } :: ({ m_py =
+    ('l'::('g'::('a'::('m'::('m'::('a'::[])))))); m_cpp =
+    ('s'::('t'::('d'::(':'::(':'::('l'::('g'::('a'::('m'::('m'::('a'::[])))))))))));
+    m_inc = (('c'::('m'::('a'::('t'::('h'::[]))))) :: []); m_ret =
+    ('d'::('o'::('u'::('b'::('l'::('e'::[])))))) } :: ({ m_py =
+    ('c'::('e'::('i'::('l'::[])))); m_cpp =
+    ('s'::('t'::('d'::(':'::(':'::('c'::('e'::('i'::('l'::[])))))))));
+    m_inc = (('c'::('m'::('a'::('t'::('h'::[]))))) :: []); m_ret =
+    ('d'::('o'::('u'::('b'::('l'::('e'::[])))))) } :: ({ m_py =
+    ('f'::('l'::('o'::('o'::('r'::[]))))); m_cpp =
+    ('s'::('t'::('d'::(':'::(':'::('f'::('l'::('o'::('o'::('r'::[]))))))))));
+    m_inc = (('c'::('m'::('a'::('t'::('h'::[]))))) :: []); m_ret =
+    ('d'::('o'::('u'::('b'::('l'::('e'::[])))))) } :: ({ m_py =
+    ('f'::('m'::('o'::('d'::[])))); m_cpp =
+    ('s'::('t'::('d'::(':'::(':'::('f'::('m'::('o'::('d'::[])))))))));
+    m_inc = (('c'::('m'::('a'::('t'::('h'::[]))))) :: []); m_ret =
+    ('d'::('o'::('u'::('b'::('l'::('e'::[])))))) } :: ({ m_py =
+    ('t'::('r'::('u'::('n'::('c'::[]))))); m_cpp =
+    ('s'::('t'::('d'::(':'::(':'::('t'::('r'::('u'::('n'::('c'::[]))))))))));
+    m_inc = (('c'::('m'::('a'::('t'::('h'::[]))))) :: []); m_ret =
+    ('d'::('o'::('u'::('b'::('l'::('e'::[])))))) } :: ({ m_py =
+    ('r'::('o'::('u'::('n'::('d'::[]))))); m_cpp =
+    ('s'::('t'::('d'::(':'::(':'::('r'::('o'::('u'::('n'::('d'::[]))))))))));
+    m_inc = (('c'::('m'::('a'::('t'::('h'::[]))))) :: []); m_ret =
+    ('d'::('o'::('u'::('b'::('l'::('e'::[])))))) } :: ({ m_py =
+    ('r'::('i'::('n'::('t'::[])))); m_cpp =
+    ('s'::('t'::('d'::(':'::(':'::('r'::('i'::('n'::('t'::[])))))))));
+    m_inc = (('c'::('m'::('a'::('t'::('h'::[]))))) :: []); m_ret =
+    ('d'::('o'::('u'::('b'::('l'::('e'::[])))))) } :: ({ m_py =
+    ('n'::('e'::('a'::('r'::('b'::('y'::('i'::('n'::('t'::[])))))))));
+    m_cpp =
+    ('s'::('t'::('d'::(':'::(':'::('n'::('e'::('a'::('r'::('b'::('y'::('i'::('n'::('t'::[]))))))))))))));
+    m_inc = (('c'::('m'::('a'::('t'::('h'::[]))))) :: []); m_ret =
+    ('d'::('o'::('u'::('b'::('l'::('e'::[])))))) } :: ({ m_py =
+    ('r'::('e'::('m'::('a'::('i'::('n'::('d'::('e'::('r'::[])))))))));
+    m_cpp =
+    ('s'::('t'::('d'::(':'::(':'::('r'::('e'::('m'::('a'::('i'::('n'::('d'::('e'::('r'::[]))))))))))))));
+    m_inc = (('c'::('m'::('a'::('t'::('h'::[]))))) :: []); m_ret =
+    ('d'::('o'::('u'::('b'::('l'::('e'::[])))))) } :: ({ m_py =
+    ('r'::('e'::('m'::('q'::('u'::('o'::[])))))); m_cpp =
+    ('s'::('t'::('d'::(':'::(':'::('r'::('e'::('m'::('q'::('u'::('o'::[])))))))))));
+    m_inc = (('c'::('m'::('a'::('t'::('h'::[]))))) :: []); m_ret =
+    ('d'::('o'::('u'::('b'::('l'::('e'::[])))))) } :: ({ m_py =
+    ('c'::('o'::('p'::('y'::('s'::('i'::('g'::('n'::[])))))))); m_cpp =
+    ('s'::('t'::('d'::(':'::(':'::('c'::('o'::('p'::('y'::('s'::('i'::('g'::('n'::[])))))))))))));
+    m_inc = (('c'::('m'::('a'::('t'::('h'::[]))))) :: []); m_ret =
+    ('d'::('o'::('u'::('b'::('l'::('e'::[])))))) } :: ({ m_py =
+    ('n'::('a'::('n'::[]))); m_cpp =
+    ('s'::('t'::('d'::(':'::(':'::('n'::('a'::('n'::[])))))))); m_inc =
+    (('c'::('m'::('a'::('t'::('h'::[]))))) :: []); m_ret =
+    ('d'::('o'::('u'::('b'::('l'::('e'::[])))))) } :: ({ m_py =
+    ('n'::('e'::('x'::('t'::('a'::('f'::('t'::('e'::('r'::[])))))))));
+    m_cpp =
+    ('s'::('t'::('d'::(':'::(':'::('n'::('e'::('x'::('t'::('a'::('f'::('t'::('e'::('r'::[]))))))))))))));
+    m_inc = (('c'::('m'::('a'::('t'::('h'::[]))))) :: []); m_ret =
+    ('d'::('o'::('u'::('b'::('l'::('e'::[])))))) } :: ({ m_py =
+    ('n'::('e'::('x'::('t'::('t'::('o'::('w'::('a'::('r'::('d'::[]))))))))));
+    m_cpp =
+    ('s'::('t'::('d'::(':'::(':'::('n'::('e'::('x'::('t'::('t'::('o'::('w'::('a'::('r'::('d'::[])))))))))))))));
+    m_inc = (('c'::('m'::('a'::('t'::('h'::[]))))) :: []); m_ret =
+    ('d'::('o'::('u'::('b'::('l'::('e'::[])))))) } :: ({ m_py =
+    ('f'::('d'::('i'::('m'::[])))); m_cpp =
+    ('s'::('t'::('d'::(':'::(':'::('f'::('d'::('i'::('m'::[])))))))));
+    m_inc = (('c'::('m'::('a'::('t'::('h'::[]))))) :: []); m_ret =
+    ('d'::('o'::('u'::('b'::('l'::('e'::[])))))) } :: ({ m_py =
+    ('f'::('m'::('a'::('x'::[])))); m_cpp =
+    ('s'::('t'::('d'::(':'::(':'::('f'::('m'::('a'::('x'::[])))))))));
+    m_inc = (('c'::('m'::('a'::('t'::('h'::[]))))) :: []); m_ret =
+    ('d'::('o'::('u'::('b'::('l'::('e'::[])))))) } :: ({ m_py =
+    ('f'::('m'::('i'::('n'::[])))); m_cpp =
+    ('s'::('t'::('d'::(':'::(':'::('f'::('m'::('i'::('n'::[])))))))));
+    m_inc = (('c'::('m'::('a'::('t'::('h'::[]))))) :: []); m_ret =
+    ('d'::('o'::('u'::('b'::('l'::('e'::[])))))) } :: ({ m_py =
+    ('f'::('a'::('b'::('s'::[])))); m_cpp =
+    ('s'::('t'::('d'::(':'::(':'::('f'::('a'::('b'::('s'::[])))))))));
+    m_inc = (('c'::('m'::('a'::('t'::('h'::[]))))) :: []); m_ret =
+    ('d'::('o'::('u'::('b'::('l'::('e'::[])))))) } :: ({ m_py =
+    ('a'::('b'::('s'::[]))); m_cpp =
+    ('s'::('t'::('d'::(':'::(':'::('f'::('a'::('b'::('s'::[])))))))));
+    m_inc = (('c'::('m'::('a'::('t'::('h'::[]))))) :: []); m_ret =
+    ('d'::('o'::('u'::('b'::('l'::('e'::[])))))) } :: ({ m_py =
+    ('f'::('m'::('a'::[]))); m_cpp =
+    ('s'::('t'::('d'::(':'::(':'::('f'::('m'::('a'::[])))))))); m_inc =
+    (('c'::('m'::('a'::('t'::('h'::[]))))) :: []); m_ret =
+    ('d'::('o'::('u'::('b'::('l'::('e'::[])))))) } :: ({ m_py =
+    ('b'::('u'::('i'::('l'::('t'::('i'::('n'::('s'::('.'::('a'::('b'::('s'::[]))))))))))));
+    m_cpp = ('s'::('t'::('d'::(':'::(':'::('a'::('b'::('s'::[]))))))));
+    m_inc = (('c'::('m'::('a'::('t'::('h'::[]))))) :: []); m_ret =
+    ('d'::('o'::('u'::('b'::('l'::('e'::[])))))) } :: ({ m_py =
+    ('b'::('u'::('i'::('l'::('t'::('i'::('n'::('s'::('.'::('p'::('o'::('w'::[]))))))))))));
+    m_cpp = ('s'::('t'::('d'::(':'::(':'::('p'::('o'::('w'::[]))))))));
+    m_inc = (('c'::('m'::('a'::('t'::('h'::[]))))) :: []); m_ret =
+    ('d'::('o'::('u'::('b'::('l'::('e'::[])))))) } :: ({ m_py =
+    ('b'::('u'::('i'::('l'::('t'::('i'::('n'::('s'::('.'::('r'::('o'::('u'::('n'::('d'::[]))))))))))))));
+    m_cpp =
+    ('s'::('t'::('d'::(':'::(':'::('r'::('o'::('u'::('n'::('d'::[]))))))))));
+    m_inc = (('c'::('m'::('a'::('t'::('h'::[]))))) :: []); m_ret =
+    ('d'::('o'::('u'::('b'::('l'::('e'::[])))))) } :: []))))))))))))))))))))))))))))))))))))))))))))))))))))))
 
 (** val module_names : char list list **)
 
 let module_names =
-  []
+  ('a'::('s'::('t'::[]))) :: (('n'::('a'::('m'::('e'::('d'::('t'::('u'::('p'::('l'::('e'::[])))))))))) :: (('F'::('u'::('n'::('c'::('t'::('i'::('o'::('n'::('A'::('S'::('T'::[]))))))))))) :: (('f'::('i'::('n'::('d'::('_'::('k'::('n'::('o'::('w'::('n'::('_'::('f'::('u'::('n'::('c'::('t'::('i'::('o'::('n'::('s'::[])))))))))))))))))))) :: (('a'::('d'::('d'::('_'::('f'::('u'::('n'::('c'::('t'::('i'::('o'::('n'::('_'::('m'::('a'::('p'::('p'::('i'::('n'::('g'::[])))))))))))))))))))) :: (('f'::('u'::('n'::('c'::('t'::('i'::('o'::('n'::('s'::('_'::('t'::('o'::('_'::('r'::('e'::('p'::('l'::('a'::('c'::('e'::[])))))))))))))))))))) :: (('c'::('p'::('p'::('_'::('f'::('u'::('n'::('c'::('t'::('i'::('o'::('n'::[])))))))))))) :: []))))))
 
 (** val builtin_names : (char list * char list) list **)
 
 let builtin_names =
-  []
+  (('A'::('r'::('i'::('t'::('h'::('m'::('e'::('t'::('i'::('c'::('E'::('r'::('r'::('o'::('r'::[]))))))))))))))),
+    ('b'::('u'::('i'::('l'::('t'::('i'::('n'::('s'::[]))))))))) :: ((('A'::('s'::('s'::('e'::('r'::('t'::('i'::('o'::('n'::('E'::('r'::('r'::('o'::('r'::[])))))))))))))),
+    ('b'::('u'::('i'::('l'::('t'::('i'::('n'::('s'::[]))))))))) :: ((('A'::('t'::('t'::('r'::('i'::('b'::('u'::('t'::('e'::('E'::('r'::('r'::('o'::('r'::[])))))))))))))),
+    ('b'::('u'::('i'::('l'::('t'::('i'::('n'::('s'::[]))))))))) :: ((('B'::('a'::('s'::('e'::('E'::('x'::('c'::('e'::('p'::('t'::('i'::('o'::('n'::[]))))))))))))),
+    ('b'::('u'::('i'::('l'::('t'::('i'::('n'::('s'::[]))))))))) :: ((('B'::('a'::('s'::('e'::('E'::('x'::('c'::('e'::('p'::('t'::('i'::('o'::('n'::('G'::('r'::('o'::('u'::('p'::[])))))))))))))))))),
+    ('b'::('u'::('i'::('l'::('t'::('i'::('n'::('s'::[]))))))))) :: ((('B'::('l'::('o'::('c'::('k'::('i'::('n'::('g'::('I'::('O'::('E'::('r'::('r'::('o'::('r'::[]))))))))))))))),
+    ('b'::('u'::('i'::('l'::('t'::('i'::('n'::('s'::[]))))))))) :: ((('B'::('r'::('o'::('k'::('e'::('n'::('P'::('i'::('p'::('e'::('E'::('r'::('r'::('o'::('r'::[]))))))))))))))),
+    ('b'::('u'::('i'::('l'::('t'::('i'::('n'::('s'::[]))))))))) :: ((('B'::('u'::('f'::('f'::('e'::('r'::('E'::('r'::('r'::('o'::('r'::[]))))))))))),
+    ('b'::('u'::('i'::('l'::('t'::('i'::('n'::('s'::[]))))))))) :: ((('B'::('y'::('t'::('e'::('s'::('W'::('a'::('r'::('n'::('i'::('n'::('g'::[])))))))))))),
+    ('b'::('u'::('i'::('l'::('t'::('i'::('n'::('s'::[]))))))))) :: ((('C'::('h'::('i'::('l'::('d'::('P'::('r'::('o'::('c'::('e'::('s'::('s'::('E'::('r'::('r'::('o'::('r'::[]))))))))))))))))),
+    ('b'::('u'::('i'::('l'::('t'::('i'::('n'::('s'::[]))))))))) :: ((('C'::('o'::('n'::('n'::('e'::('c'::('t'::('i'::('o'::('n'::('A'::('b'::('o'::('r'::('t'::('e'::('d'::('E'::('r'::('r'::('o'::('r'::[])))))))))))))))))))))),
+    ('b'::('u'::('i'::('l'::('t'::('i'::('n'::('s'::[]))))))))) :: ((('C'::('o'::('n'::('n'::('e'::('c'::('t'::('i'::('o'::('n'::('E'::('r'::('r'::('o'::('r'::[]))))))))))))))),
+    ('b'::('u'::('i'::('l'::('t'::('i'::('n'::('s'::[]))))))))) :: ((('C'::('o'::('n'::('n'::('e'::('c'::('t'::('i'::('o'::('n'::('R'::('e'::('f'::('u'::('s'::('e'::('d'::('E'::('r'::('r'::('o'::('r'::[])))))))))))))))))))))),
+    ('b'::('u'::('i'::('l'::('t'::('i'::('n'::('s'::[]))))))))) :: ((('C'::('o'::('n'::('n'::('e'::('c'::('t'::('i'::('o'::('n'::('R'::('e'::('s'::('e'::('t'::('E'::('r'::('r'::('o'::('r'::[])))))))))))))))))))),
+    ('b'::('u'::('i'::('l'::('t'::('i'::('n'::('s'::[]))))))))) :: ((('D'::('e'::('p'::('r'::('e'::('c'::('a'::('t'::('i'::('o'::('n'::('W'::('a'::('r'::('n'::('i'::('n'::('g'::[])))))))))))))))))),
+    ('b'::('u'::('i'::('l'::('t'::('i'::('n'::('s'::[]))))))))) :: ((('E'::('O'::('F'::('E'::('r'::('r'::('o'::('r'::[])))))))),
+    ('b'::('u'::('i'::('l'::('t'::('i'::('n'::('s'::[]))))))))) :: ((('E'::('l'::('l'::('i'::('p'::('s'::('i'::('s'::[])))))))),
+    ('-'::[])) :: ((('E'::('n'::('c'::('o'::('d'::('i'::('n'::('g'::('W'::('a'::('r'::('n'::('i'::('n'::('g'::[]))))))))))))))),
+    ('b'::('u'::('i'::('l'::('t'::('i'::('n'::('s'::[]))))))))) :: ((('E'::('n'::('v'::('i'::('r'::('o'::('n'::('m'::('e'::('n'::('t'::('E'::('r'::('r'::('o'::('r'::[])))))))))))))))),
+    ('b'::('u'::('i'::('l'::('t'::('i'::('n'::('s'::[]))))))))) :: ((('E'::('x'::('c'::('e'::('p'::('t'::('i'::('o'::('n'::[]))))))))),
+    ('b'::('u'::('i'::('l'::('t'::('i'::('n'::('s'::[]))))))))) :: ((('E'::('x'::('c'::('e'::('p'::('t'::('i'::('o'::('n'::('G'::('r'::('o'::('u'::('p'::[])))))))))))))),
+    ('b'::('u'::('i'::('l'::('t'::('i'::('n'::('s'::[]))))))))) :: ((('F'::('a'::('l'::('s'::('e'::[]))))),
+    ('-'::[])) :: ((('F'::('i'::('l'::('e'::('E'::('x'::('i'::('s'::('t'::('s'::('E'::('r'::('r'::('o'::('r'::[]))))))))))))))),
+    ('b'::('u'::('i'::('l'::('t'::('i'::('n'::('s'::[]))))))))) :: ((('F'::('i'::('l'::('e'::('N'::('o'::('t'::('F'::('o'::('u'::('n'::('d'::('E'::('r'::('r'::('o'::('r'::[]))))))))))))))))),
+    ('b'::('u'::('i'::('l'::('t'::('i'::('n'::('s'::[]))))))))) :: ((('F'::('l'::('o'::('a'::('t'::('i'::('n'::('g'::('P'::('o'::('i'::('n'::('t'::('E'::('r'::('r'::('o'::('r'::[])))))))))))))))))),
+    ('b'::('u'::('i'::('l'::('t'::('i'::('n'::('s'::[]))))))))) :: ((('F'::('u'::('t'::('u'::('r'::('e'::('W'::('a'::('r'::('n'::('i'::('n'::('g'::[]))))))))))))),
+    ('b'::('u'::('i'::('l'::('t'::('i'::('n'::('s'::[]))))))))) :: ((('G'::('e'::('n'::('e'::('r'::('a'::('t'::('o'::('r'::('E'::('x'::('i'::('t'::[]))))))))))))),
+    ('b'::('u'::('i'::('l'::('t'::('i'::('n'::('s'::[]))))))))) :: ((('I'::('O'::('E'::('r'::('r'::('o'::('r'::[]))))))),
+    ('b'::('u'::('i'::('l'::('t'::('i'::('n'::('s'::[]))))))))) :: ((('I'::('m'::('p'::('o'::('r'::('t'::('E'::('r'::('r'::('o'::('r'::[]))))))))))),
+    ('b'::('u'::('i'::('l'::('t'::('i'::('n'::('s'::[]))))))))) :: ((('I'::('m'::('p'::('o'::('r'::('t'::('W'::('a'::('r'::('n'::('i'::('n'::('g'::[]))))))))))))),
+    ('b'::('u'::('i'::('l'::('t'::('i'::('n'::('s'::[]))))))))) :: ((('I'::('n'::('d'::('e'::('n'::('t'::('a'::('t'::('i'::('o'::('n'::('E'::('r'::('r'::('o'::('r'::[])))))))))))))))),
+    ('b'::('u'::('i'::('l'::('t'::('i'::('n'::('s'::[]))))))))) :: ((('I'::('n'::('d'::('e'::('x'::('E'::('r'::('r'::('o'::('r'::[])))))))))),
+    ('b'::('u'::('i'::('l'::('t'::('i'::('n'::('s'::[]))))))))) :: ((('I'::('n'::('t'::('e'::('r'::('r'::('u'::('p'::('t'::('e'::('d'::('E'::('r'::('r'::('o'::('r'::[])))))))))))))))),
+    ('b'::('u'::('i'::('l'::('t'::('i'::('n'::('s'::[]))))))))) :: ((('I'::('s'::('A'::('D'::('i'::('r'::('e'::('c'::('t'::('o'::('r'::('y'::('E'::('r'::('r'::('o'::('r'::[]))))))))))))))))),
+    ('b'::('u'::('i'::('l'::('t'::('i'::('n'::('s'::[]))))))))) :: ((('K'::('e'::('y'::('E'::('r'::('r'::('o'::('r'::[])))))))),
+    ('b'::('u'::('i'::('l'::('t'::('i'::('n'::('s'::[]))))))))) :: ((('K'::('e'::('y'::('b'::('o'::('a'::('r'::('d'::('I'::('n'::('t'::('e'::('r'::('r'::('u'::('p'::('t'::[]))))))))))))))))),
+    ('b'::('u'::('i'::('l'::('t'::('i'::('n'::('s'::[]))))))))) :: ((('L'::('o'::('o'::('k'::('u'::('p'::('E'::('r'::('r'::('o'::('r'::[]))))))))))),
+    ('b'::('u'::('i'::('l'::('t'::('i'::('n'::('s'::[]))))))))) :: ((('M'::('e'::('m'::('o'::('r'::('y'::('E'::('r'::('r'::('o'::('r'::[]))))))))))),
+    ('b'::('u'::('i'::('l'::('t'::('i'::('n'::('s'::[]))))))))) :: ((('M'::('o'::('d'::('u'::('l'::('e'::('N'::('o'::('t'::('F'::('o'::('u'::('n'::('d'::('E'::('r'::('r'::('o'::('r'::[]))))))))))))))))))),
+    ('b'::('u'::('i'::('l'::('t'::('i'::('n'::('s'::[]))))))))) :: ((('N'::('a'::('m'::('e'::('E'::('r'::('r'::('o'::('r'::[]))))))))),
+    ('b'::('u'::('i'::('l'::('t'::('i'::('n'::('s'::[]))))))))) :: ((('N'::('o'::('n'::('e'::[])))),
+    ('-'::[])) :: ((('N'::('o'::('t'::('A'::('D'::('i'::('r'::('e'::('c'::('t'::('o'::('r'::('y'::('E'::('r'::('r'::('o'::('r'::[])))))))))))))))))),
+    ('b'::('u'::('i'::('l'::('t'::('i'::('n'::('s'::[]))))))))) :: ((('N'::('o'::('t'::('I'::('m'::('p'::('l'::('e'::('m'::('e'::('n'::('t'::('e'::('d'::[])))))))))))))),
+    ('-'::[])) :: ((('N'::('o'::('t'::('I'::('m'::('p'::('l'::('e'::('m'::('e'::('n'::('t'::('e'::('d'::('E'::('r'::('r'::('o'::('r'::[]))))))))))))))))))),
+    ('b'::('u'::('i'::('l'::('t'::('i'::('n'::('s'::[]))))))))) :: ((('O'::('S'::('E'::('r'::('r'::('o'::('r'::[]))))))),
+    ('b'::('u'::('i'::('l'::('t'::('i'::('n'::('s'::[]))))))))) :: ((('O'::('v'::('e'::('r'::('f'::('l'::('o'::('w'::('E'::('r'::('r'::('o'::('r'::[]))))))))))))),
+    ('b'::('u'::('i'::('l'::('t'::('i'::('n'::('s'::[]))))))))) :: ((('P'::('e'::('n'::('d'::('i'::('n'::('g'::('D'::('e'::('p'::('r'::('e'::('c'::('a'::('t'::('i'::('o'::('n'::('W'::('a'::('r'::('n'::('i'::('n'::('g'::[]))))))))))))))))))))))))),
+    ('b'::('u'::('i'::('l'::('t'::('i'::('n'::('s'::[]))))))))) :: ((('P'::('e'::('r'::('m'::('i'::('s'::('s'::('i'::('o'::('n'::('E'::('r'::('r'::('o'::('r'::[]))))))))))))))),
+    ('b'::('u'::('i'::('l'::('t'::('i'::('n'::('s'::[]))))))))) :: ((('P'::('r'::('o'::('c'::('e'::('s'::('s'::('L'::('o'::('o'::('k'::('u'::('p'::('E'::('r'::('r'::('o'::('r'::[])))))))))))))))))),
+    ('b'::('u'::('i'::('l'::('t'::('i'::('n'::('s'::[]))))))))) :: ((('R'::('e'::('c'::('u'::('r'::('s'::('i'::('o'::('n'::('E'::('r'::('r'::('o'::('r'::[])))))))))))))),
+    ('b'::('u'::('i'::('l'::('t'::('i'::('n'::('s'::[]))))))))) :: ((('R'::('e'::('f'::('e'::('r'::('e'::('n'::('c'::('e'::('E'::('r'::('r'::('o'::('r'::[])))))))))))))),
+    ('b'::('u'::('i'::('l'::('t'::('i'::('n'::('s'::[]))))))))) :: ((('R'::('e'::('s'::('o'::('u'::('r'::('c'::('e'::('W'::('a'::('r'::('n'::('i'::('n'::('g'::[]))))))))))))))),
+    ('b'::('u'::('i'::('l'::('t'::('i'::('n'::('s'::[]))))))))) :: ((('R'::('u'::('n'::('t'::('i'::('m'::('e'::('E'::('r'::('r'::('o'::('r'::[])))))))))))),
+    ('b'::('u'::('i'::('l'::('t'::('i'::('n'::('s'::[]))))))))) :: ((('R'::('u'::('n'::('t'::('i'::('m'::('e'::('W'::('a'::('r'::('n'::('i'::('n'::('g'::[])))))))))))))),
+    ('b'::('u'::('i'::('l'::('t'::('i'::('n'::('s'::[]))))))))) :: ((('S'::('t'::('o'::('p'::('A'::('s'::('y'::('n'::('c'::('I'::('t'::('e'::('r'::('a'::('t'::('i'::('o'::('n'::[])))))))))))))))))),
+    ('b'::('u'::('i'::('l'::('t'::('i'::('n'::('s'::[]))))))))) :: ((('S'::('t'::('o'::('p'::('I'::('t'::('e'::('r'::('a'::('t'::('i'::('o'::('n'::[]))))))))))))),
+    ('b'::('u'::('i'::('l'::('t'::('i'::('n'::('s'::[]))))))))) :: ((('S'::('y'::('n'::('t'::('a'::('x'::('E'::('r'::('r'::('o'::('r'::[]))))))))))),
+    ('b'::('u'::('i'::('l'::('t'::('i'::('n'::('s'::[]))))))))) :: ((('S'::('y'::('n'::('t'::('a'::('x'::('W'::('a'::('r'::('n'::('i'::('n'::('g'::[]))))))))))))),
+    ('b'::('u'::('i'::('l'::('t'::('i'::('n'::('s'::[]))))))))) :: ((('S'::('y'::('s'::('t'::('e'::('m'::('E'::('r'::('r'::('o'::('r'::[]))))))))))),
+    ('b'::('u'::('i'::('l'::('t'::('i'::('n'::('s'::[]))))))))) :: ((('S'::('y'::('s'::('t'::('e'::('m'::('E'::('x'::('i'::('t'::[])))))))))),
+    ('b'::('u'::('i'::('l'::('t'::('i'::('n'::('s'::[]))))))))) :: ((('T'::('a'::('b'::('E'::('r'::('r'::('o'::('r'::[])))))))),
+    ('b'::('u'::('i'::('l'::('t'::('i'::('n'::('s'::[]))))))))) :: ((('T'::('i'::('m'::('e'::('o'::('u'::('t'::('E'::('r'::('r'::('o'::('r'::[])))))))))))),
+    ('b'::('u'::('i'::('l'::('t'::('i'::('n'::('s'::[]))))))))) :: ((('T'::('r'::('u'::('e'::[])))),
+    ('-'::[])) :: ((('T'::('y'::('p'::('e'::('E'::('r'::('r'::('o'::('r'::[]))))))))),
+    ('b'::('u'::('i'::('l'::('t'::('i'::('n'::('s'::[]))))))))) :: ((('U'::('n'::('b'::('o'::('u'::('n'::('d'::('L'::('o'::('c'::('a'::('l'::('E'::('r'::('r'::('o'::('r'::[]))))))))))))))))),
+    ('b'::('u'::('i'::('l'::('t'::('i'::('n'::('s'::[]))))))))) :: ((('U'::('n'::('i'::('c'::('o'::('d'::('e'::('D'::('e'::('c'::('o'::('d'::('e'::('E'::('r'::('r'::('o'::('r'::[])))))))))))))))))),
+    ('b'::('u'::('i'::('l'::('t'::('i'::('n'::('s'::[]))))))))) :: ((('U'::('n'::('i'::('c'::('o'::('d'::('e'::('E'::('n'::('c'::('o'::('d'::('e'::('E'::('r'::('r'::('o'::('r'::[])))))))))))))))))),
+    ('b'::('u'::('i'::('l'::('t'::('i'::('n'::('s'::[]))))))))) :: ((('U'::('n'::('i'::('c'::('o'::('d'::('e'::('E'::('r'::('r'::('o'::('r'::[])))))))))))),
+    ('b'::('u'::('i'::('l'::('t'::('i'::('n'::('s'::[]))))))))) :: ((('U'::('n'::('i'::('c'::('o'::('d'::('e'::('T'::('r'::('a'::('n'::('s'::('l'::('a'::('t'::('e'::('E'::('r'::('r'::('o'::('r'::[]))))))))))))))))))))),
+    ('b'::('u'::('i'::('l'::('t'::('i'::('n'::('s'::[]))))))))) :: ((('U'::('n'::('i'::('c'::('o'::('d'::('e'::('W'::('a'::('r'::('n'::('i'::('n'::('g'::[])))))))))))))),
+    ('b'::('u'::('i'::('l'::('t'::('i'::('n'::('s'::[]))))))))) :: ((('U'::('s'::('e'::('r'::('W'::('a'::('r'::('n'::('i'::('n'::('g'::[]))))))))))),
+    ('b'::('u'::('i'::('l'::('t'::('i'::('n'::('s'::[]))))))))) :: ((('V'::('a'::('l'::('u'::('e'::('E'::('r'::('r'::('o'::('r'::[])))))))))),
+    ('b'::('u'::('i'::('l'::('t'::('i'::('n'::('s'::[]))))))))) :: ((('W'::('a'::('r'::('n'::('i'::('n'::('g'::[]))))))),
+    ('b'::('u'::('i'::('l'::('t'::('i'::('n'::('s'::[]))))))))) :: ((('Z'::('e'::('r'::('o'::('D'::('i'::('v'::('i'::('s'::('i'::('o'::('n'::('E'::('r'::('r'::('o'::('r'::[]))))))))))))))))),
+    ('b'::('u'::('i'::('l'::('t'::('i'::('n'::('s'::[]))))))))) :: ((('_'::('_'::('b'::('u'::('i'::('l'::('d'::('_'::('c'::('l'::('a'::('s'::('s'::('_'::('_'::[]))))))))))))))),
+    ('b'::('u'::('i'::('l'::('t'::('i'::('n'::('s'::[]))))))))) :: ((('_'::('_'::('d'::('e'::('b'::('u'::('g'::('_'::('_'::[]))))))))),
+    ('-'::[])) :: ((('_'::('_'::('d'::('o'::('c'::('_'::('_'::[]))))))),
+    ('-'::[])) :: ((('_'::('_'::('i'::('m'::('p'::('o'::('r'::('t'::('_'::('_'::[])))))))))),
+    ('b'::('u'::('i'::('l'::('t'::('i'::('n'::('s'::[]))))))))) :: ((('_'::('_'::('l'::('o'::('a'::('d'::('e'::('r'::('_'::('_'::[])))))))))),
+    ('_'::('f'::('r'::('o'::('z'::('e'::('n'::('_'::('i'::('m'::('p'::('o'::('r'::('t'::('l'::('i'::('b'::[])))))))))))))))))) :: ((('_'::('_'::('n'::('a'::('m'::('e'::('_'::('_'::[])))))))),
+    ('-'::[])) :: ((('_'::('_'::('p'::('a'::('c'::('k'::('a'::('g'::('e'::('_'::('_'::[]))))))))))),
+    ('-'::[])) :: ((('_'::('_'::('s'::('p'::('e'::('c'::('_'::('_'::[])))))))),
+    ('_'::('f'::('r'::('o'::('z'::('e'::('n'::('_'::('i'::('m'::('p'::('o'::('r'::('t'::('l'::('i'::('b'::[])))))))))))))))))) :: ((('a'::('b'::('s'::[]))),
+    ('b'::('u'::('i'::('l'::('t'::('i'::('n'::('s'::[]))))))))) :: ((('a'::('i'::('t'::('e'::('r'::[]))))),
+    ('b'::('u'::('i'::('l'::('t'::('i'::('n'::('s'::[]))))))))) :: ((('a'::('l'::('l'::[]))),
+    ('b'::('u'::('i'::('l'::('t'::('i'::('n'::('s'::[]))))))))) :: ((('a'::('n'::('e'::('x'::('t'::[]))))),
+    ('b'::('u'::('i'::('l'::('t'::('i'::('n'::('s'::[]))))))))) :: ((('a'::('n'::('y'::[]))),
+    ('b'::('u'::('i'::('l'::('t'::('i'::('n'::('s'::[]))))))))) :: ((('a'::('s'::('c'::('i'::('i'::[]))))),
+    ('b'::('u'::('i'::('l'::('t'::('i'::('n'::('s'::[]))))))))) :: ((('b'::('i'::('n'::[]))),
+    ('b'::('u'::('i'::('l'::('t'::('i'::('n'::('s'::[]))))))))) :: ((('b'::('o'::('o'::('l'::[])))),
+    ('b'::('u'::('i'::('l'::('t'::('i'::('n'::('s'::[]))))))))) :: ((('b'::('r'::('e'::('a'::('k'::('p'::('o'::('i'::('n'::('t'::[])))))))))),
+    ('b'::('u'::('i'::('l'::('t'::('i'::('n'::('s'::[]))))))))) :: ((('b'::('y'::('t'::('e'::('a'::('r'::('r'::('a'::('y'::[]))))))))),
+    ('b'::('u'::('i'::('l'::('t'::('i'::('n'::('s'::[]))))))))) :: ((('b'::('y'::('t'::('e'::('s'::[]))))),
+    ('b'::('u'::('i'::('l'::('t'::('i'::('n'::('s'::[]))))))))) :: ((('c'::('a'::('l'::('l'::('a'::('b'::('l'::('e'::[])))))))),
+    ('b'::('u'::('i'::('l'::('t'::('i'::('n'::('s'::[]))))))))) :: ((('c'::('h'::('r'::[]))),
+    ('b'::('u'::('i'::('l'::('t'::('i'::('n'::('s'::[]))))))))) :: ((('c'::('l'::('a'::('s'::('s'::('m'::('e'::('t'::('h'::('o'::('d'::[]))))))))))),
+    ('b'::('u'::('i'::('l'::('t'::('i'::('n'::('s'::[]))))))))) :: ((('c'::('o'::('m'::('p'::('i'::('l'::('e'::[]))))))),
+    ('b'::('u'::('i'::('l'::('t'::('i'::('n'::('s'::[]))))))))) :: ((('c'::('o'::('m'::('p'::('l'::('e'::('x'::[]))))))),
+    ('b'::('u'::('i'::('l'::('t'::('i'::('n'::('s'::[]))))))))) :: ((('c'::('o'::('p'::('y'::('r'::('i'::('g'::('h'::('t'::[]))))))))),
+    ('_'::('s'::('i'::('t'::('e'::('b'::('u'::('i'::('l'::('t'::('i'::('n'::('s'::[])))))))))))))) :: ((('c'::('r'::('e'::('d'::('i'::('t'::('s'::[]))))))),
+    ('_'::('s'::('i'::('t'::('e'::('b'::('u'::('i'::('l'::('t'::('i'::('n'::('s'::[])))))))))))))) :: ((('d'::('e'::('l'::('a'::('t'::('t'::('r'::[]))))))),
+    ('b'::('u'::('i'::('l'::('t'::('i'::('n'::('s'::[]))))))))) :: ((('d'::('i'::('c'::('t'::[])))),
+    ('b'::('u'::('i'::('l'::('t'::('i'::('n'::('s'::[]))))))))) :: ((('d'::('i'::('r'::[]))),
+    ('b'::('u'::('i'::('l'::('t'::('i'::('n'::('s'::[]))))))))) :: ((('d'::('i'::('v'::('m'::('o'::('d'::[])))))),
+    ('b'::('u'::('i'::('l'::('t'::('i'::('n'::('s'::[]))))))))) :: ((('e'::('n'::('u'::('m'::('e'::('r'::('a'::('t'::('e'::[]))))))))),
+    ('b'::('u'::('i'::('l'::('t'::('i'::('n'::('s'::[]))))))))) :: ((('e'::('v'::('a'::('l'::[])))),
+    ('b'::('u'::('i'::('l'::('t'::('i'::('n'::('s'::[]))))))))) :: ((('e'::('x'::('e'::('c'::[])))),
+    ('b'::('u'::('i'::('l'::('t'::('i'::('n'::('s'::[]))))))))) :: ((('e'::('x'::('i'::('t'::[])))),
+    ('_'::('s'::('i'::('t'::('e'::('b'::('u'::('i'::('l'::('t'::('i'::('n'::('s'::[])))))))))))))) :: ((('f'::('i'::('l'::('t'::('e'::('r'::[])))))),
+    ('b'::('u'::('i'::('l'::('t'::('i'::('n'::('s'::[]))))))))) :: ((('f'::('l'::('o'::('a'::('t'::[]))))),
+    ('b'::('u'::('i'::('l'::('t'::('i'::('n'::('s'::[]))))))))) :: ((('f'::('o'::('r'::('m'::('a'::('t'::[])))))),
+    ('b'::('u'::('i'::('l'::('t'::('i'::('n'::('s'::[]))))))))) :: ((('f'::('r'::('o'::('z'::('e'::('n'::('s'::('e'::('t'::[]))))))))),
+    ('b'::('u'::('i'::('l'::('t'::('i'::('n'::('s'::[]))))))))) :: ((('g'::('e'::('t'::('a'::('t'::('t'::('r'::[]))))))),
+    ('b'::('u'::('i'::('l'::('t'::('i'::('n'::('s'::[]))))))))) :: ((('g'::('l'::('o'::('b'::('a'::('l'::('s'::[]))))))),
+    ('b'::('u'::('i'::('l'::('t'::('i'::('n'::('s'::[]))))))))) :: ((('h'::('a'::('s'::('a'::('t'::('t'::('r'::[]))))))),
+    ('b'::('u'::('i'::('l'::('t'::('i'::('n'::('s'::[]))))))))) :: ((('h'::('a'::('s'::('h'::[])))),
+    ('b'::('u'::('i'::('l'::('t'::('i'::('n'::('s'::[]))))))))) :: ((('h'::('e'::('l'::('p'::[])))),
+    ('_'::('s'::('i'::('t'::('e'::('b'::('u'::('i'::('l'::('t'::('i'::('n'::('s'::[])))))))))))))) :: ((('h'::('e'::('x'::[]))),
+    ('b'::('u'::('i'::('l'::('t'::('i'::('n'::('s'::[]))))))))) :: ((('i'::('d'::[])),
+    ('b'::('u'::('i'::('l'::('t'::('i'::('n'::('s'::[]))))))))) :: ((('i'::('n'::('p'::('u'::('t'::[]))))),
+    ('b'::('u'::('i'::('l'::('t'::('i'::('n'::('s'::[]))))))))) :: ((('i'::('n'::('t'::[]))),
+    ('b'::('u'::('i'::('l'::('t'::('i'::('n'::('s'::[]))))))))) :: ((('i'::('s'::('i'::('n'::('s'::('t'::('a'::('n'::('c'::('e'::[])))))))))),
+    ('b'::('u'::('i'::('l'::('t'::('i'::('n'::('s'::[]))))))))) :: ((('i'::('s'::('s'::('u'::('b'::('c'::('l'::('a'::('s'::('s'::[])))))))))),
+    ('b'::('u'::('i'::('l'::('t'::('i'::('n'::('s'::[]))))))))) :: ((('i'::('t'::('e'::('r'::[])))),
+    ('b'::('u'::('i'::('l'::('t'::('i'::('n'::('s'::[]))))))))) :: ((('l'::('e'::('n'::[]))),
+    ('b'::('u'::('i'::('l'::('t'::('i'::('n'::('s'::[]))))))))) :: ((('l'::('i'::('c'::('e'::('n'::('s'::('e'::[]))))))),
+    ('_'::('s'::('i'::('t'::('e'::('b'::('u'::('i'::('l'::('t'::('i'::('n'::('s'::[])))))))))))))) :: ((('l'::('i'::('s'::('t'::[])))),
+    ('b'::('u'::('i'::('l'::('t'::('i'::('n'::('s'::[]))))))))) :: ((('l'::('o'::('c'::('a'::('l'::('s'::[])))))),
+    ('b'::('u'::('i'::('l'::('t'::('i'::('n'::('s'::[]))))))))) :: ((('m'::('a'::('p'::[]))),
+    ('b'::('u'::('i'::('l'::('t'::('i'::('n'::('s'::[]))))))))) :: ((('m'::('a'::('x'::[]))),
+    ('b'::('u'::('i'::('l'::('t'::('i'::('n'::('s'::[]))))))))) :: ((('m'::('e'::('m'::('o'::('r'::('y'::('v'::('i'::('e'::('w'::[])))))))))),
+    ('b'::('u'::('i'::('l'::('t'::('i'::('n'::('s'::[]))))))))) :: ((('m'::('i'::('n'::[]))),
+    ('b'::('u'::('i'::('l'::('t'::('i'::('n'::('s'::[]))))))))) :: ((('n'::('e'::('x'::('t'::[])))),
+    ('b'::('u'::('i'::('l'::('t'::('i'::('n'::('s'::[]))))))))) :: ((('o'::('b'::('j'::('e'::('c'::('t'::[])))))),
+    ('b'::('u'::('i'::('l'::('t'::('i'::('n'::('s'::[]))))))))) :: ((('o'::('c'::('t'::[]))),
+    ('b'::('u'::('i'::('l'::('t'::('i'::('n'::('s'::[]))))))))) :: ((('o'::('p'::('e'::('n'::[])))),
+    ('_'::('i'::('o'::[])))) :: ((('o'::('r'::('d'::[]))),
+    ('b'::('u'::('i'::('l'::('t'::('i'::('n'::('s'::[]))))))))) :: ((('p'::('o'::('w'::[]))),
+    ('b'::('u'::('i'::('l'::('t'::('i'::('n'::('s'::[]))))))))) :: ((('p'::('r'::('i'::('n'::('t'::[]))))),
+    ('b'::('u'::('i'::('l'::('t'::('i'::('n'::('s'::[]))))))))) :: ((('p'::('r'::('o'::('p'::('e'::('r'::('t'::('y'::[])))))))),
+    ('b'::('u'::('i'::('l'::('t'::('i'::('n'::('s'::[]))))))))) :: ((('q'::('u'::('i'::('t'::[])))),
+    ('_'::('s'::('i'::('t'::('e'::('b'::('u'::('i'::('l'::('t'::('i'::('n'::('s'::[])))))))))))))) :: ((('r'::('a'::('n'::('g'::('e'::[]))))),
+    ('b'::('u'::('i'::('l'::('t'::('i'::('n'::('s'::[]))))))))) :: ((('r'::('e'::('p'::('r'::[])))),
+    ('b'::('u'::('i'::('l'::('t'::('i'::('n'::('s'::[]))))))))) :: ((('r'::('e'::('v'::('e'::('r'::('s'::('e'::('d'::[])))))))),
+    ('b'::('u'::('i'::('l'::('t'::('i'::('n'::('s'::[]))))))))) :: ((('r'::('o'::('u'::('n'::('d'::[]))))),
+    ('b'::('u'::('i'::('l'::('t'::('i'::('n'::('s'::[]))))))))) :: ((('s'::('e'::('t'::[]))),
+    ('b'::('u'::('i'::('l'::('t'::('i'::('n'::('s'::[]))))))))) :: ((('s'::('e'::('t'::('a'::('t'::('t'::('r'::[]))))))),
+    ('b'::('u'::('i'::('l'::('t'::('i'::('n'::('s'::[]))))))))) :: ((('s'::('l'::('i'::('c'::('e'::[]))))),
+    ('b'::('u'::('i'::('l'::('t'::('i'::('n'::('s'::[]))))))))) :: ((('s'::('o'::('r'::('t'::('e'::('d'::[])))))),
+    ('b'::('u'::('i'::('l'::('t'::('i'::('n'::('s'::[]))))))))) :: ((('s'::('t'::('a'::('t'::('i'::('c'::('m'::('e'::('t'::('h'::('o'::('d'::[])))))))))))),
+    ('b'::('u'::('i'::('l'::('t'::('i'::('n'::('s'::[]))))))))) :: ((('s'::('t'::('r'::[]))),
+    ('b'::('u'::('i'::('l'::('t'::('i'::('n'::('s'::[]))))))))) :: ((('s'::('u'::('m'::[]))),
+    ('b'::('u'::('i'::('l'::('t'::('i'::('n'::('s'::[]))))))))) :: ((('s'::('u'::('p'::('e'::('r'::[]))))),
+    ('b'::('u'::('i'::('l'::('t'::('i'::('n'::('s'::[]))))))))) :: ((('t'::('u'::('p'::('l'::('e'::[]))))),
+    ('b'::('u'::('i'::('l'::('t'::('i'::('n'::('s'::[]))))))))) :: ((('t'::('y'::('p'::('e'::[])))),
+    ('b'::('u'::('i'::('l'::('t'::('i'::('n'::('s'::[]))))))))) :: ((('v'::('a'::('r'::('s'::[])))),
+    ('b'::('u'::('i'::('l'::('t'::('i'::('n'::('s'::[]))))))))) :: ((('z'::('i'::('p'::[]))),
+    ('b'::('u'::('i'::('l'::('t'::('i'::('n'::('s'::[]))))))))) :: []))))))))))))))))))))))))))))))))))))))))))))))))))))))))))))))))))))))))))))))))))))))))))))))))))))))))))))))))))))))))))))))))))))))))))))))))))))))))))))
 
 (** val documented : char list list **)
 
 let documented =
-  []
+  ('s'::('i'::('n'::[]))) :: (('c'::('o'::('s'::[]))) :: (('t'::('a'::('n'::[]))) :: (('a'::('c'::('o'::('s'::[])))) :: (('a'::('s'::('i'::('n'::[])))) :: (('a'::('t'::('a'::('n'::[])))) :: (('a'::('t'::('a'::('n'::('2'::[]))))) :: (('s'::('i'::('n'::('h'::[])))) :: (('c'::('o'::('s'::('h'::[])))) :: (('t'::('a'::('n'::('h'::[])))) :: (('a'::('s'::('i'::('n'::('h'::[]))))) :: (('a'::('c'::('o'::('s'::('h'::[]))))) :: (('a'::('t'::('a'::('n'::('h'::[]))))) :: (('e'::('x'::('p'::[]))) :: (('l'::('d'::('e'::('x'::('p'::[]))))) :: (('l'::('o'::('g'::[]))) :: (('l'::('n'::[])) :: (('l'::('o'::('g'::('1'::('0'::[]))))) :: (('e'::('x'::('p'::('2'::[])))) :: (('e'::('x'::('p'::('m'::('1'::[]))))) :: (('i'::('l'::('o'::('g'::('b'::[]))))) :: (('l'::('o'::('g'::('1'::('p'::[]))))) :: (('l'::('o'::('g'::('2'::[])))) :: (('s'::('c'::('a'::('l'::('b'::('n'::[])))))) :: (('s'::('c'::('a'::('l'::('b'::('l'::('n'::[]))))))) :: (('p'::('o'::('w'::[]))) :: (('s'::('q'::('r'::('t'::[])))) :: (('c'::('b'::('r'::('t'::[])))) :: (('h'::('y'::('p'::('o'::('t'::[]))))) :: (('e'::('r'::('f'::[]))) :: (('e'::('r'::('f'::('c'::[])))) :: (('t'::('g'::('a'::('m'::('m'::('a'::[])))))) :: (('l'::('g'::('a'::('m'::('m'::('a'::[])))))) :: (('c'::('e'::('i'::('l'::[])))) :: (('f'::('l'::('o'::('o'::('r'::[]))))) :: (('f'::('m'::('o'::('d'::[])))) :: (('t'::('r'::('u'::('n'::('c'::[]))))) :: (('r'::('o'::('u'::('n'::('d'::[]))))) :: (('r'::('i'::('n'::('t'::[])))) :: (('n'::('e'::('a'::('r'::('b'::('y'::('i'::('n'::('t'::[]))))))))) :: (('r'::('e'::('m'::('a'::('i'::('n'::('d'::('e'::('r'::[]))))))))) :: (('r'::('e'::('m'::('q'::('u'::('o'::[])))))) :: (('c'::('o'::('p'::('y'::('s'::('i'::('g'::('n'::[])))))))) :: (('n'::('a'::('n'::[]))) :: (('n'::('e'::('x'::('t'::('a'::('f'::('t'::('e'::('r'::[]))))))))) :: (('n'::('e'::('x'::('t'::('t'::('o'::('w'::('a'::('r'::('d'::[])))))))))) :: (('f'::('d'::('i'::('m'::[])))) :: (('f'::('m'::('a'::('x'::[])))) :: (('f'::('m'::('i'::('n'::[])))) :: (('f'::('a'::('b'::('s'::[])))) :: (('a'::('b'::('s'::[]))) :: (('f'::('m'::('a'::[]))) :: [])))))))))))))))))))))))))))))))))))))))))))))))))))
 
 (** val math_env : menv **)
 
 let math_env =
   { e_rows = math_rows; e_module = module_names; e_builtins = builtin_names }
+
+type literal =
+| LInt of z
+| LFloat of bool * n * z
+| LBool of bool
+| LStr of char list
+
+(** val code : char -> nat **)
+
+let code =
+  nat_of_ascii
+
+(** val is_octal : char -> bool **)
+
+let is_octal c =
+  (&&)
+    (Nat.leb (S (S (S (S (S (S (S (S (S (S (S (S (S (S (S (S (S (S (S (S (S
+      (S (S (S (S (S (S (S (S (S (S (S (S (S (S (S (S (S (S (S (S (S (S (S (S
+      (S (S (S O)))))))))))))))))))))))))))))))))))))))))))))))) (code c))
+    (Nat.leb (code c) (S (S (S (S (S (S (S (S (S (S (S (S (S (S (S (S (S (S
+      (S (S (S (S (S (S (S (S (S (S (S (S (S (S (S (S (S (S (S (S (S (S (S (S
+      (S (S (S (S (S (S (S (S (S (S (S (S (S
+      O))))))))))))))))))))))))))))))))))))))))))))))))))))))))
+
+(** val is_hex : char -> bool **)
+
+let is_hex c =
+  (||)
+    ((||) (is_digit c)
+      ((&&)
+        (Nat.leb (S (S (S (S (S (S (S (S (S (S (S (S (S (S (S (S (S (S (S (S
+          (S (S (S (S (S (S (S (S (S (S (S (S (S (S (S (S (S (S (S (S (S (S
+          (S (S (S (S (S (S (S (S (S (S (S (S (S (S (S (S (S (S (S (S (S (S
+          (S
+          O)))))))))))))))))))))))))))))))))))))))))))))))))))))))))))))))))
+          (code c))
+        (Nat.leb (code c) (S (S (S (S (S (S (S (S (S (S (S (S (S (S (S (S (S
+          (S (S (S (S (S (S (S (S (S (S (S (S (S (S (S (S (S (S (S (S (S (S
+          (S (S (S (S (S (S (S (S (S (S (S (S (S (S (S (S (S (S (S (S (S (S
+          (S (S (S (S (S (S (S (S (S
+          O)))))))))))))))))))))))))))))))))))))))))))))))))))))))))))))))))))))))))
+    ((&&)
+      (Nat.leb (S (S (S (S (S (S (S (S (S (S (S (S (S (S (S (S (S (S (S (S (S
+        (S (S (S (S (S (S (S (S (S (S (S (S (S (S (S (S (S (S (S (S (S (S (S
+        (S (S (S (S (S (S (S (S (S (S (S (S (S (S (S (S (S (S (S (S (S (S (S
+        (S (S (S (S (S (S (S (S (S (S (S (S (S (S (S (S (S (S (S (S (S (S (S
+        (S (S (S (S (S (S (S
+        O)))))))))))))))))))))))))))))))))))))))))))))))))))))))))))))))))))))))))))))))))))))))))))))))))
+        (code c))
+      (Nat.leb (code c) (S (S (S (S (S (S (S (S (S (S (S (S (S (S (S (S (S (S
+        (S (S (S (S (S (S (S (S (S (S (S (S (S (S (S (S (S (S (S (S (S (S (S
+        (S (S (S (S (S (S (S (S (S (S (S (S (S (S (S (S (S (S (S (S (S (S (S
+        (S (S (S (S (S (S (S (S (S (S (S (S (S (S (S (S (S (S (S (S (S (S (S
+        (S (S (S (S (S (S (S (S (S (S (S (S (S (S (S
+        O))))))))))))))))))))))))))))))))))))))))))))))))))))))))))))))))))))))))))))))))))))))))))))))))))))))))
+
+(** val hex_val : char -> n **)
+
+let hex_val c =
+  if is_digit c
+  then N.of_nat
+         (sub (code c) (S (S (S (S (S (S (S (S (S (S (S (S (S (S (S (S (S (S
+           (S (S (S (S (S (S (S (S (S (S (S (S (S (S (S (S (S (S (S (S (S (S
+           (S (S (S (S (S (S (S (S
+           O)))))))))))))))))))))))))))))))))))))))))))))))))
+  else if Nat.leb (S (S (S (S (S (S (S (S (S (S (S (S (S (S (S (S (S (S (S (S
+            (S (S (S (S (S (S (S (S (S (S (S (S (S (S (S (S (S (S (S (S (S (S
+            (S (S (S (S (S (S (S (S (S (S (S (S (S (S (S (S (S (S (S (S (S (S
+            (S (S (S (S (S (S (S (S (S (S (S (S (S (S (S (S (S (S (S (S (S (S
+            (S (S (S (S (S (S (S (S (S (S (S
+            O)))))))))))))))))))))))))))))))))))))))))))))))))))))))))))))))))))))))))))))))))))))))))))))))))
+            (code c)
+       then N.of_nat
+              (sub (code c) (S (S (S (S (S (S (S (S (S (S (S (S (S (S (S (S
+                (S (S (S (S (S (S (S (S (S (S (S (S (S (S (S (S (S (S (S (S
+                (S (S (S (S (S (S (S (S (S (S (S (S (S (S (S (S (S (S (S (S
+                (S (S (S (S (S (S (S (S (S (S (S (S (S (S (S (S (S (S (S (S
+                (S (S (S (S (S (S (S (S (S (S (S
+                O))))))))))))))))))))))))))))))))))))))))))))))))))))))))))))))))))))))))))))))))))))))))
+       else N.of_nat
+              (sub (code c) (S (S (S (S (S (S (S (S (S (S (S (S (S (S (S (S
+                (S (S (S (S (S (S (S (S (S (S (S (S (S (S (S (S (S (S (S (S
+                (S (S (S (S (S (S (S (S (S (S (S (S (S (S (S (S (S (S (S
+                O))))))))))))))))))))))))))))))))))))))))))))))))))))))))
+
+(** val is_alpha_ : char -> bool **)
+
+let is_alpha_ c =
+  (||)
+    ((||)
+      ((&&)
+        (Nat.leb (S (S (S (S (S (S (S (S (S (S (S (S (S (S (S (S (S (S (S (S
+          (S (S (S (S (S (S (S (S (S (S (S (S (S (S (S (S (S (S (S (S (S (S
+          (S (S (S (S (S (S (S (S (S (S (S (S (S (S (S (S (S (S (S (S (S (S
+          (S
+          O)))))))))))))))))))))))))))))))))))))))))))))))))))))))))))))))))
+          (code c))
+        (Nat.leb (code c) (S (S (S (S (S (S (S (S (S (S (S (S (S (S (S (S (S
+          (S (S (S (S (S (S (S (S (S (S (S (S (S (S (S (S (S (S (S (S (S (S
+          (S (S (S (S (S (S (S (S (S (S (S (S (S (S (S (S (S (S (S (S (S (S
+          (S (S (S (S (S (S (S (S (S (S (S (S (S (S (S (S (S (S (S (S (S (S
+          (S (S (S (S (S (S (S
+          O))))))))))))))))))))))))))))))))))))))))))))))))))))))))))))))))))))))))))))))))))))))))))))
+      ((&&)
+        (Nat.leb (S (S (S (S (S (S (S (S (S (S (S (S (S (S (S (S (S (S (S (S
+          (S (S (S (S (S (S (S (S (S (S (S (S (S (S (S (S (S (S (S (S (S (S
+          (S (S (S (S (S (S (S (S (S (S (S (S (S (S (S (S (S (S (S (S (S (S
+          (S (S (S (S (S (S (S (S (S (S (S (S (S (S (S (S (S (S (S (S (S (S
+          (S (S (S (S (S (S (S (S (S (S (S
+          O)))))))))))))))))))))))))))))))))))))))))))))))))))))))))))))))))))))))))))))))))))))))))))))))))
+          (code c))
+        (Nat.leb (code c) (S (S (S (S (S (S (S (S (S (S (S (S (S (S (S (S (S
+          (S (S (S (S (S (S (S (S (S (S (S (S (S (S (S (S (S (S (S (S (S (S
+          (S (S (S (S (S (S (S (S (S (S (S (S (S (S (S (S (S (S (S (S (S (S
+          (S (S (S (S (S (S (S (S (S (S (S (S (S (S (S (S (S (S (S (S (S (S
+          (S (S (S (S (S (S (S (S (S (S (S (S (S (S (S (S (S (S (S (S (S (S
+          (S (S (S (S (S (S (S (S (S (S (S (S (S (S (S (S (S
+          O)))))))))))))))))))))))))))))))))))))))))))))))))))))))))))))))))))))))))))))))))))))))))))))))))))))))))))))))))))))))))))))
+    (Nat.eqb (code c) (S (S (S (S (S (S (S (S (S (S (S (S (S (S (S (S (S (S
+      (S (S (S (S (S (S (S (S (S (S (S (S (S (S (S (S (S (S (S (S (S (S (S (S
+      (S (S (S (S (S (S (S (S (S (S (S (S (S (S (S (S (S (S (S (S (S (S (S (S
+      (S (S (S (S (S (S (S (S (S (S (S (S (S (S (S (S (S (S (S (S (S (S (S (S
+      (S (S (S (S (S
+      O))))))))))))))))))))))))))))))))))))))))))))))))))))))))))))))))))))))))))))))))))))))))))))))))
+
+(** val is_idchar : char -> bool **)
+
+let is_idchar c =
+  (||) (is_alpha_ c) (is_digit c)
+
+(** val is_schar : char -> bool **)
+
+let is_schar c =
+  let n0 = code c in
+  if (||)
+       (Nat.eqb n0 (S (S (S (S (S (S (S (S (S (S (S (S (S (S (S (S (S (S (S
+         (S (S (S (S (S (S (S (S (S (S (S (S (S (S (S
+         O)))))))))))))))))))))))))))))))))))
+       (Nat.eqb n0 (S (S (S (S (S (S (S (S (S (S (S (S (S (S (S (S (S (S (S
+         (S (S (S (S (S (S (S (S (S (S (S (S (S (S (S (S (S (S (S (S (S (S (S
+         (S (S (S (S (S (S (S (S (S (S (S (S (S (S (S (S (S (S (S (S (S (S (S
+         (S (S (S (S (S (S (S (S (S (S (S (S (S (S (S (S (S (S (S (S (S (S (S
+         (S (S (S (S
+         O)))))))))))))))))))))))))))))))))))))))))))))))))))))))))))))))))))))))))))))))))))))))))))))
+  then false
+  else if Nat.ltb n0 (S (S (S (S (S (S (S (S (S (S (S (S (S (S (S (S (S (S (S
+            (S (S (S (S (S (S (S (S (S (S (S (S (S
+            O))))))))))))))))))))))))))))))))
+       then (||)
+              ((||) (Nat.eqb n0 (S (S (S (S (S (S (S (S (S O))))))))))
+                (Nat.eqb n0 (S (S (S (S (S (S (S (S (S (S (S O)))))))))))))
+              (Nat.eqb n0 (S (S (S (S (S (S (S (S (S (S (S (S O)))))))))))))
+       else negb
+              (Nat.eqb n0 (S (S (S (S (S (S (S (S (S (S (S (S (S (S (S (S (S
+                (S (S (S (S (S (S (S (S (S (S (S (S (S (S (S (S (S (S (S (S
+                (S (S (S (S (S (S (S (S (S (S (S (S (S (S (S (S (S (S (S (S
+                (S (S (S (S (S (S (S (S (S (S (S (S (S (S (S (S (S (S (S (S
+                (S (S (S (S (S (S (S (S (S (S (S (S (S (S (S (S (S (S (S (S
+                (S (S (S (S (S (S (S (S (S (S (S (S (S (S (S (S (S (S (S (S
+                (S (S (S (S (S (S (S (S (S (S
+                O))))))))))))))))))))))))))))))))))))))))))))))))))))))))))))))))))))))))))))))))))))))))))))))))))))))))))))))))))))))))))))))))
+
+(** val simple_escape : char -> char option **)
+
+let simple_escape c =
+  (* If this appears, you're using Ascii internals. Please don't *)
+ (fun f c ->
+  let n = Char.code c in
+  let h i = (n land (1 lsl i)) <> 0 in
+  f (h 0) (h 1) (h 2) (h 3) (h 4) (h 5) (h 6) (h 7))
+    (fun b b0 b1 b2 b3 b4 b5 b6 ->
+    if b
+    then if b0
+         then if b1
+              then if b2
+                   then if b3
+                        then if b4
+                             then if b5
+                                  then None
+                                  else if b6 then None else Some '?'
+                             else None
+                        else None
+                   else if b3
+                        then None
+                        else if b4
+                             then if b5
+                                  then None
+                                  else if b6 then None else Some '\''
+                             else None
+              else None
+         else if b1
+              then None
+              else if b2
+                   then None
+                   else if b3
+                        then None
+                        else if b4
+                             then if b5
+                                  then if b6
+                                       then None
+                                       else Some
+                                              (ascii_of_nat (S (S (S (S (S (S
+                                                (S O))))))))
+                                  else None
+                             else None
+    else if b0
+         then if b1
+              then if b2
+                   then if b3
+                        then None
+                        else if b4
+                             then if b5
+                                  then if b6
+                                       then None
+                                       else Some
+                                              (ascii_of_nat (S (S (S (S (S (S
+                                                (S (S (S (S O)))))))))))
+                                  else None
+                             else None
+                   else if b3
+                        then if b4
+                             then if b5
+                                  then if b6
+                                       then None
+                                       else Some
+                                              (ascii_of_nat (S (S (S (S (S (S
+                                                (S (S (S (S (S O))))))))))))
+                                  else None
+                             else None
+                        else if b4
+                             then if b5
+                                  then if b6
+                                       then None
+                                       else Some
+                                              (ascii_of_nat (S (S (S (S (S (S
+                                                (S (S (S (S (S (S
+                                                O)))))))))))))
+                                  else None
+                             else None
+              else if b2
+                   then None
+                   else if b3
+                        then if b4
+                             then if b5
+                                  then if b6
+                                       then None
+                                       else Some
+                                              (ascii_of_nat (S (S (S (S (S (S
+                                                (S (S (S (S (S (S (S
+                                                O))))))))))))))
+                                  else None
+                             else None
+                        else if b4
+                             then if b5
+                                  then if b6
+                                       then None
+                                       else Some
+                                              (ascii_of_nat (S (S (S (S (S (S
+                                                (S (S O)))))))))
+                                  else if b6 then None else Some '"'
+                             else None
+         else if b1
+              then if b2
+                   then if b3
+                        then if b4
+                             then None
+                             else if b5
+                                  then if b6 then None else Some '\\'
+                                  else None
+                        else None
+                   else if b3
+                        then if b4
+                             then if b5
+                                  then if b6
+                                       then None
+                                       else Some
+                                              (ascii_of_nat (S (S (S (S (S (S
+                                                (S (S (S O))))))))))
+                                  else None
+                             else None
+                        else None
+              else None)
+    c
+
+(** val byte_of_N : n -> char option **)
+
+let byte_of_N v =
+  if N.ltb v (Npos (XO (XO (XO (XO (XO (XO (XO (XO XH)))))))))
+  then Some (ascii_of_N v)
+  else None
+
+type sstate =
+| SNorm
+| SEsc
+| SOct of nat * n
+| SHex of bool * n
+
+(** val cons_res :
+    char option -> (char list * char list) option -> (char list * char list)
+    option **)
+
+let cons_res b r =
+  match b with
+  | Some b' ->
+    (match r with
+     | Some p -> let (v, rest) = p in Some ((b'::v), rest)
+     | None -> None)
+  | None -> None
+
+(** val lex_sbody : sstate -> char list -> (char list * char list) option **)
+
+let rec lex_sbody st = function
+| [] -> None
+| c::r ->
+  let norm = fun pending ->
+    let here =
+      if Nat.eqb (code c) (S (S (S (S (S (S (S (S (S (S (S (S (S (S (S (S (S
+           (S (S (S (S (S (S (S (S (S (S (S (S (S (S (S (S (S
+           O))))))))))))))))))))))))))))))))))
+      then Some ([], r)
+      else if Nat.eqb (code c) (S (S (S (S (S (S (S (S (S (S (S (S (S (S (S
+                (S (S (S (S (S (S (S (S (S (S (S (S (S (S (S (S (S (S (S (S
+                (S (S (S (S (S (S (S (S (S (S (S (S (S (S (S (S (S (S (S (S
+                (S (S (S (S (S (S (S (S (S (S (S (S (S (S (S (S (S (S (S (S
+                (S (S (S (S (S (S (S (S (S (S (S (S (S (S (S (S (S
+                O))))))))))))))))))))))))))))))))))))))))))))))))))))))))))))))))))))))))))))))))))))))))))))
+           then lex_sbody SEsc r
+           else if is_schar c
+                then cons_res (Some c) (lex_sbody SNorm r)
+                else None
+    in
+    (match pending with
+     | Some b -> cons_res b here
+     | None -> here)
+  in
+  (match st with
+   | SNorm -> norm None
+   | SEsc ->
+     (match simple_escape c with
+      | Some b -> cons_res (Some b) (lex_sbody SNorm r)
+      | None ->
+        if is_octal c
+        then lex_sbody (SOct ((S O),
+               (N.of_nat
+                 (sub (code c) (S (S (S (S (S (S (S (S (S (S (S (S (S (S (S
+                   (S (S (S (S (S (S (S (S (S (S (S (S (S (S (S (S (S (S (S
+                   (S (S (S (S (S (S (S (S (S (S (S (S (S (S
+                   O)))))))))))))))))))))))))))))))))))))))))))))))))))) r
+        else if Nat.eqb (code c) (S (S (S (S (S (S (S (S (S (S (S (S (S (S (S
+                  (S (S (S (S (S (S (S (S (S (S (S (S (S (S (S (S (S (S (S (S
+                  (S (S (S (S (S (S (S (S (S (S (S (S (S (S (S (S (S (S (S (S
+                  (S (S (S (S (S (S (S (S (S (S (S (S (S (S (S (S (S (S (S (S
+                  (S (S (S (S (S (S (S (S (S (S (S (S (S (S (S (S (S (S (S (S
+                  (S (S (S (S (S (S (S (S (S (S (S (S (S (S (S (S (S (S (S (S
+                  (S (S (S (S (S
+                  O))))))))))))))))))))))))))))))))))))))))))))))))))))))))))))))))))))))))))))))))))))))))))))))))))))))))))))))))))))))))
+             then lex_sbody (SHex (false, N0)) r
+             else None)
+   | SOct (k, v) ->
+     if is_octal c
+     then let v' =
+            N.add (N.mul v (Npos (XO (XO (XO XH)))))
+              (N.of_nat
+                (sub (code c) (S (S (S (S (S (S (S (S (S (S (S (S (S (S (S (S
+                  (S (S (S (S (S (S (S (S (S (S (S (S (S (S (S (S (S (S (S (S
+                  (S (S (S (S (S (S (S (S (S (S (S (S
+                  O))))))))))))))))))))))))))))))))))))))))))))))))))
+          in
+          (match k with
+           | O -> cons_res (byte_of_N v') (lex_sbody SNorm r)
+           | S n0 ->
+             (match n0 with
+              | O -> lex_sbody (SOct ((S (S O)), v')) r
+              | S _ -> cons_res (byte_of_N v') (lex_sbody SNorm r)))
+     else norm (Some (byte_of_N v))
+   | SHex (started, v) ->
+     if is_hex c
+     then lex_sbody (SHex (true,
+            (N.add (N.mul v (Npos (XO (XO (XO (XO XH)))))) (hex_val c)))) r
+     else if started then norm (Some (byte_of_N v)) else None)
+
+(** val all_digits : char list -> bool **)
+
+let rec all_digits = function
+| [] -> true
+| c::r -> (&&) (is_digit c) (all_digits r)
+
+(** val nonempty : char list -> bool **)
+
+let nonempty = function
+| [] -> false
+| _::_ -> true
+
+(** val digits1 : char list -> bool **)
+
+let digits1 s =
+  (&&) (nonempty s) (all_digits s)
+
+(** val break_at :
+    (char -> bool) -> char list -> char list * (char * char list) option **)
+
+let rec break_at p = function
+| [] -> ([], None)
+| c::r ->
+  if p c
+  then ([], (Some (c, r)))
+  else let (a, b) = break_at p r in ((c::a), b)
+
+(** val is_dot : char -> bool **)
+
+let is_dot c =
+  Nat.eqb (code c) (S (S (S (S (S (S (S (S (S (S (S (S (S (S (S (S (S (S (S
+    (S (S (S (S (S (S (S (S (S (S (S (S (S (S (S (S (S (S (S (S (S (S (S (S
+    (S (S (S O))))))))))))))))))))))))))))))))))))))))))))))
+
+(** val is_e : char -> bool **)
+
+let is_e c =
+  (||)
+    (Nat.eqb (code c) (S (S (S (S (S (S (S (S (S (S (S (S (S (S (S (S (S (S
+      (S (S (S (S (S (S (S (S (S (S (S (S (S (S (S (S (S (S (S (S (S (S (S (S
+      (S (S (S (S (S (S (S (S (S (S (S (S (S (S (S (S (S (S (S (S (S (S (S (S
+      (S (S (S (S (S (S (S (S (S (S (S (S (S (S (S (S (S (S (S (S (S (S (S (S
+      (S (S (S (S (S (S (S (S (S (S (S
+      O))))))))))))))))))))))))))))))))))))))))))))))))))))))))))))))))))))))))))))))))))))))))))))))))))))))
+    (Nat.eqb (code c) (S (S (S (S (S (S (S (S (S (S (S (S (S (S (S (S (S (S
+      (S (S (S (S (S (S (S (S (S (S (S (S (S (S (S (S (S (S (S (S (S (S (S (S
+      (S (S (S (S (S (S (S (S (S (S (S (S (S (S (S (S (S (S (S (S (S (S (S (S
+      (S (S (S
+      O))))))))))))))))))))))))))))))))))))))))))))))))))))))))))))))))))))))
+
+(** val is_plus : char -> bool **)
+
+let is_plus c =
+  Nat.eqb (code c) (S (S (S (S (S (S (S (S (S (S (S (S (S (S (S (S (S (S (S
+    (S (S (S (S (S (S (S (S (S (S (S (S (S (S (S (S (S (S (S (S (S (S (S (S
+    O)))))))))))))))))))))))))))))))))))))))))))
+
+(** val is_minus : char -> bool **)
+
+let is_minus c =
+  Nat.eqb (code c) (S (S (S (S (S (S (S (S (S (S (S (S (S (S (S (S (S (S (S
+    (S (S (S (S (S (S (S (S (S (S (S (S (S (S (S (S (S (S (S (S (S (S (S (S
+    (S (S O)))))))))))))))))))))))))))))))))))))))))))))
+
+(** val exp_value : char list -> z option **)
+
+let exp_value s = match s with
+| [] -> None
+| c::r ->
+  if is_plus c
+  then if digits1 r then option_map Z.of_N (parse_N r) else None
+  else if is_minus c
+       then if digits1 r
+            then option_map (fun n0 -> Z.opp (Z.of_N n0)) (parse_N r)
+            else None
+       else if digits1 s then option_map Z.of_N (parse_N s) else None
+
+(** val signif_value : char list -> bool -> (n * z) option **)
+
+let signif_value s has_exp =
+  let (ip, o) = break_at is_dot s in
+  (match o with
+   | Some p ->
+     let (_, fp) = p in
+     if (&&) ((&&) (all_digits ip) (all_digits fp))
+          ((||) (nonempty ip) (nonempty fp))
+     then (match parse_N_acc (append ip fp) N0 with
+           | Some m -> Some (m, (Z.opp (Z.of_nat (length0 fp))))
+           | None -> None)
+     else None
+   | None ->
+     if (&&) ((&&) has_exp (nonempty ip)) (all_digits ip)
+     then option_map (fun m -> (m, Z0)) (parse_N ip)
+     else None)
+
+(** val float_value : char list -> (n * z) option **)
+
+let float_value tok =
+  let (sg, o) = break_at is_e tok in
+  (match o with
+   | Some p ->
+     let (_, ex) = p in
+     (match signif_value sg true with
+      | Some p0 ->
+        let (m, e1) = p0 in
+        (match exp_value ex with
+         | Some e2 -> Some (m, (Z.add e1 e2))
+         | None -> None)
+      | None -> None)
+   | None -> signif_value sg false)
+
+(** val cpp_float_lit : char list -> bool **)
+
+let cpp_float_lit tok =
+  match float_value tok with
+  | Some _ -> true
+  | None -> false
+
+(** val max_int64 : n **)
+
+let max_int64 =
+  Npos (XI (XI (XI (XI (XI (XI (XI (XI (XI (XI (XI (XI (XI (XI (XI (XI (XI
+    (XI (XI (XI (XI (XI (XI (XI (XI (XI (XI (XI (XI (XI (XI (XI (XI (XI (XI
+    (XI (XI (XI (XI (XI (XI (XI (XI (XI (XI (XI (XI (XI (XI (XI (XI (XI (XI
+    (XI (XI (XI (XI (XI (XI (XI (XI (XI
+    XH))))))))))))))))))))))))))))))))))))))))))))))))))))))))))))))
+
+(** val leading_zero : char list -> bool **)
+
+let leading_zero = function
+| [] -> false
+| c::s ->
+  (match s with
+   | [] -> false
+   | _::_ ->
+     Nat.eqb (code c) (S (S (S (S (S (S (S (S (S (S (S (S (S (S (S (S (S (S
+       (S (S (S (S (S (S (S (S (S (S (S (S (S (S (S (S (S (S (S (S (S (S (S
+       (S (S (S (S (S (S (S O)))))))))))))))))))))))))))))))))))))))))))))))))
+
+(** val int_value : char list -> n option **)
+
+let int_value tok =
+  if leading_zero tok
+  then None
+  else if digits1 tok
+       then (match parse_N tok with
+             | Some n0 -> if N.leb n0 max_int64 then Some n0 else None
+             | None -> None)
+       else None
+
+(** val is_expch : char -> bool **)
+
+let is_expch c =
+  (||)
+    ((||) (is_e c)
+      (Nat.eqb (code c) (S (S (S (S (S (S (S (S (S (S (S (S (S (S (S (S (S (S
+        (S (S (S (S (S (S (S (S (S (S (S (S (S (S (S (S (S (S (S (S (S (S (S
+        (S (S (S (S (S (S (S (S (S (S (S (S (S (S (S (S (S (S (S (S (S (S (S
+        (S (S (S (S (S (S (S (S (S (S (S (S (S (S (S (S (S (S (S (S (S (S (S
+        (S (S (S (S (S (S (S (S (S (S (S (S (S (S (S (S (S (S (S (S (S (S (S
+        (S (S
+        O))))))))))))))))))))))))))))))))))))))))))))))))))))))))))))))))))))))))))))))))))))))))))))))))))))))))))))))))))
+    (Nat.eqb (code c) (S (S (S (S (S (S (S (S (S (S (S (S (S (S (S (S (S (S
+      (S (S (S (S (S (S (S (S (S (S (S (S (S (S (S (S (S (S (S (S (S (S (S (S
+      (S (S (S (S (S (S (S (S (S (S (S (S (S (S (S (S (S (S (S (S (S (S (S (S
+      (S (S (S (S (S (S (S (S (S (S (S (S (S (S
+      O)))))))))))))))))))))))))))))))))))))))))))))))))))))))))))))))))))))))))))))))))
+
+(** val ppnum : bool -> char list -> char list * char list **)
+
+let rec ppnum prev_e s = match s with
+| [] -> ([], [])
+| c::r ->
+  if (||) ((||) (is_idchar c) (is_dot c))
+       ((&&) prev_e ((||) (is_plus c) (is_minus c)))
+  then let (a, b) = ppnum (is_expch c) r in ((c::a), b)
+  else ([], s)
+
+(** val ident : char list -> char list * char list **)
+
+let rec ident s = match s with
+| [] -> ([], [])
+| c::r -> if is_idchar c then let (a, b) = ident r in ((c::a), b) else ([], s)
+
+(** val number_value : bool -> char list -> literal option **)
+
+let number_value neg tok =
+  match int_value tok with
+  | Some n0 -> Some (LInt (if neg then Z.opp (Z.of_N n0) else Z.of_N n0))
+  | None ->
+    (match float_value tok with
+     | Some p -> let (m, e) = p in Some (LFloat (neg, m, e))
+     | None -> None)
+
+(** val starts_number : char list -> bool **)
+
+let starts_number = function
+| [] -> false
+| c::r ->
+  (||) (is_digit c)
+    ((&&) (is_dot c) (match r with
+                      | [] -> false
+                      | d::_ -> is_digit d))
+
+(** val lex_prefix : char list -> (literal * char list) option **)
+
+let lex_prefix s = match s with
+| [] -> None
+| c::r ->
+  if Nat.eqb (code c) (S (S (S (S (S (S (S (S (S (S (S (S (S (S (S (S (S (S
+       (S (S (S (S (S (S (S (S (S (S (S (S (S (S (S (S
+       O))))))))))))))))))))))))))))))))))
+  then option_map (fun vr -> ((LStr (fst vr)), (snd vr))) (lex_sbody SNorm r)
+  else if is_minus c
+       then if starts_number r
+            then let tr = ppnum false r in
+                 option_map (fun l -> (l, (snd tr)))
+                   (number_value true (fst tr))
+            else None
+       else if starts_number s
+            then let tr = ppnum false s in
+                 option_map (fun l -> (l, (snd tr)))
+                   (number_value false (fst tr))
+            else if is_alpha_ c
+                 then let tr = ident s in
+                      if eqb0 (fst tr) ('t'::('r'::('u'::('e'::[]))))
+                      then Some ((LBool true), (snd tr))
+                      else if eqb0 (fst tr)
+                                ('f'::('a'::('l'::('s'::('e'::[])))))
+                           then Some ((LBool false), (snd tr))
+                           else None
+                 else None
+
+(** val s_literal : literal -> sexp **)
+
+let s_literal = function
+| LInt z0 -> s_tag ('i'::('n'::('t'::[]))) ((s_Z z0) :: [])
+| LFloat (neg, m, e) ->
+  s_tag ('f'::('l'::('o'::('a'::('t'::[]))))) ((s_bool neg) :: ((SAtom
+    (dec_N m)) :: ((s_Z e) :: [])))
+| LBool b -> s_tag ('b'::('o'::('o'::('l'::[])))) ((s_bool b) :: [])
+| LStr s -> s_tag ('s'::('t'::('r'::[]))) ((SAtom s) :: [])
+
+(** val run_lex_prefix : sexp -> sexp **)
+
+let run_lex_prefix = function
+| SAtom t ->
+  (match lex_prefix t with
+   | Some p ->
+     let (l, rest) = p in
+     s_tag ('s'::('o'::('m'::('e'::[])))) ((s_literal l) :: ((SAtom
+       rest) :: []))
+   | None -> s_tag ('n'::('o'::('n'::('e'::[])))) [])
+| SList _ -> bad_input
+
+type const =
+| CInt of z
+| CFloat of char list
+| CBool of bool
+| CStr of char list
+| COther
+
+type ctype =
+| TInt
+| TDouble
+| TBool
+| TString
+
+(** val ctype_name : ctype -> char list **)
+
+let ctype_name = function
+| TInt -> 'i'::('n'::('t'::[]))
+| TDouble -> 'd'::('o'::('u'::('b'::('l'::('e'::[])))))
+| TBool -> 'b'::('o'::('o'::('l'::[])))
+| TString -> 's'::('t'::('r'::('i'::('n'::('g'::[])))))
+
+(** val octal3 : nat -> char list **)
+
+let octal3 n0 =
+  (digit_char
+    (Nat.div n0 (S (S (S (S (S (S (S (S (S (S (S (S (S (S (S (S (S (S (S (S
+      (S (S (S (S (S (S (S (S (S (S (S (S (S (S (S (S (S (S (S (S (S (S (S (S
+      (S (S (S (S (S (S (S (S (S (S (S (S (S (S (S (S (S (S (S (S
+      O))))))))))))))))))))))))))))))))))))))))))))))))))))))))))))))))))::(
+    (digit_char
+      (Nat.modulo (Nat.div n0 (S (S (S (S (S (S (S (S O))))))))) (S (S (S (S
+        (S (S (S (S O))))))))))::((digit_char
+                                    (Nat.modulo n0 (S (S (S (S (S (S (S (S
+                                      O))))))))))::[]))
+
+(** val escape_char : char -> char list **)
+
+let escape_char c =
+  let n0 = nat_of_ascii c in
+  if Nat.eqb n0 (S (S (S (S (S (S (S (S (S (S (S (S (S (S (S (S (S (S (S (S
+       (S (S (S (S (S (S (S (S (S (S (S (S (S (S
+       O))))))))))))))))))))))))))))))))))
+  then '\\'::('"'::[])
+  else if Nat.eqb n0 (S (S (S (S (S (S (S (S (S (S (S (S (S (S (S (S (S (S (S
+            (S (S (S (S (S (S (S (S (S (S (S (S (S (S (S (S (S (S (S (S (S (S
+            (S (S (S (S (S (S (S (S (S (S (S (S (S (S (S (S (S (S (S (S (S (S
+            (S (S (S (S (S (S (S (S (S (S (S (S (S (S (S (S (S (S (S (S (S (S
+            (S (S (S (S (S (S (S
+            O))))))))))))))))))))))))))))))))))))))))))))))))))))))))))))))))))))))))))))))))))))))))))))
+       then '\\'::('\\'::[])
+       else if Nat.eqb n0 (S (S (S (S (S (S (S (S (S (S O))))))))))
+            then '\\'::('n'::[])
+            else if Nat.eqb n0 (S (S (S (S (S (S (S (S (S O)))))))))
+                 then '\\'::('t'::[])
+                 else if Nat.eqb n0 (S (S (S (S (S (S (S (S (S (S (S (S (S
+                           O)))))))))))))
+                      then '\\'::('r'::[])
+                      else if (||)
+                                (Nat.ltb n0 (S (S (S (S (S (S (S (S (S (S (S
+                                  (S (S (S (S (S (S (S (S (S (S (S (S (S (S
+                                  (S (S (S (S (S (S (S
+                                  O)))))))))))))))))))))))))))))))))
+                                (Nat.eqb n0 (S (S (S (S (S (S (S (S (S (S (S
+                                  (S (S (S (S (S (S (S (S (S (S (S (S (S (S
+                                  (S (S (S (S (S (S (S (S (S (S (S (S (S (S
+                                  (S (S (S (S (S (S (S (S (S (S (S (S (S (S
+                                  (S (S (S (S (S (S (S (S (S (S (S (S (S (S
+                                  (S (S (S (S (S (S (S (S (S (S (S (S (S (S
+                                  (S (S (S (S (S (S (S (S (S (S (S (S (S (S
+                                  (S (S (S (S (S (S (S (S (S (S (S (S (S (S
+                                  (S (S (S (S (S (S (S (S (S (S (S (S (S (S
+                                  (S (S (S (S
+                                  O))))))))))))))))))))))))))))))))))))))))))))))))))))))))))))))))))))))))))))))))))))))))))))))))))))))))))))))))))))))))))))))))
+                           then '\\'::(octal3 n0)
+                           else c::[]
+
+(** val escape : char list -> char list **)
+
+let rec escape = function
+| [] -> []
+| c::r -> append (escape_char c) (escape r)
+
+(** val cpp_string_literal : char list -> char list **)
+
+let cpp_string_literal s =
+  '"'::(append (escape s) ('"'::[]))
+
+(** val nonfinite_repr : char list -> bool **)
+
+let nonfinite_repr t =
+  (||)
+    ((||) (eqb0 t ('i'::('n'::('f'::[]))))
+      (eqb0 t ('-'::('i'::('n'::('f'::[]))))))
+    (eqb0 t ('n'::('a'::('n'::[]))))
+
+(** val render : const -> (char list * ctype) result **)
+
+let render = function
+| CInt z0 ->
+  if Z.leb (Zpos (XO (XO (XO (XO (XO (XO (XO (XO (XO (XO (XO (XO (XO (XO (XO
+       (XO (XO (XO (XO (XO (XO (XO (XO (XO (XO (XO (XO (XO (XO (XO (XO (XO
+       (XO (XO (XO (XO (XO (XO (XO (XO (XO (XO (XO (XO (XO (XO (XO (XO (XO
+       (XO (XO (XO (XO (XO (XO (XO (XO (XO (XO (XO (XO (XO (XO
+       XH))))))))))))))))))))))))))))))))))))))))))))))))))))))))))))))))
+       (Z.abs z0)
+  then Error ErrValue
+  else OK ((dec_Z z0), TInt)
+| CFloat t -> if nonfinite_repr t then Error ErrValue else OK (t, TDouble)
+| CBool b ->
+  OK
+    ((if b
+      then 't'::('r'::('u'::('e'::[])))
+      else 'f'::('a'::('l'::('s'::('e'::[]))))), TBool)
+| CStr s -> OK ((cpp_string_literal s), TString)
+| COther -> Error ErrValue
+
+(** val render_v0 : const -> (char list * ctype) result **)
+
+let render_v0 = function
+| CInt z0 -> OK ((dec_Z z0), TInt)
+| CFloat t -> OK (t, TDouble)
+| CBool b ->
+  OK
+    ((if b
+      then 't'::('r'::('u'::('e'::[])))
+      else 'f'::('a'::('l'::('s'::('e'::[]))))), TBool)
+| CStr s -> OK (('"'::(append s ('"'::[]))), TString)
+| COther -> Error ErrValue
+
+(** val is_e_lower : char -> bool **)
+
+let is_e_lower c =
+  Nat.eqb (nat_of_ascii c) (S (S (S (S (S (S (S (S (S (S (S (S (S (S (S (S (S
+    (S (S (S (S (S (S (S (S (S (S (S (S (S (S (S (S (S (S (S (S (S (S (S (S
+    (S (S (S (S (S (S (S (S (S (S (S (S (S (S (S (S (S (S (S (S (S (S (S (S
+    (S (S (S (S (S (S (S (S (S (S (S (S (S (S (S (S (S (S (S (S (S (S (S (S
+    (S (S (S (S (S (S (S (S (S (S (S (S
+    O)))))))))))))))))))))))))))))))))))))))))))))))))))))))))))))))))))))))))))))))))))))))))))))))))))))
+
+(** val py_exp : char list -> bool **)
+
+let py_exp = function
+| [] -> false
+| c::r ->
+  (&&) ((&&) ((||) (is_plus c) (is_minus c)) (all_digits r))
+    (Nat.leb (S (S O)) (length0 r))
+
+(** val py_finite_body : char list -> bool **)
+
+let py_finite_body s =
+  let (m, o) = break_at is_e_lower s in
+  (match o with
+   | Some p ->
+     let (_, ex) = p in
+     (&&) (py_exp ex)
+       (let (ip, o0) = break_at is_dot m in
+        (match o0 with
+         | Some p0 -> let (_, fp) = p0 in (&&) (digits1 ip) (digits1 fp)
+         | None -> digits1 ip))
+   | None ->
+     let (ip, o0) = break_at is_dot m in
+     (match o0 with
+      | Some p -> let (_, fp) = p in (&&) (digits1 ip) (digits1 fp)
+      | None -> false))
+
+(** val strip_minus : char list -> bool * char list **)
+
+let strip_minus s = match s with
+| [] -> (false, s)
+| c::r -> if is_minus c then (true, r) else (false, s)
+
+(** val py_float_finite : char list -> bool **)
+
+let py_float_finite t =
+  py_finite_body (snd (strip_minus t))
+
+(** val py_float_repr : char list -> bool **)
+
+let py_float_repr t =
+  (||) (py_float_finite t) (nonfinite_repr t)
+
+(** val is_word : char -> bool **)
+
+let is_word c =
+  (||) (is_idchar c)
+    (Nat.leb (S (S (S (S (S (S (S (S (S (S (S (S (S (S (S (S (S (S (S (S (S
+      (S (S (S (S (S (S (S (S (S (S (S (S (S (S (S (S (S (S (S (S (S (S (S (S
+      (S (S (S (S (S (S (S (S (S (S (S (S (S (S (S (S (S (S (S (S (S (S (S (S
+      (S (S (S (S (S (S (S (S (S (S (S (S (S (S (S (S (S (S (S (S (S (S (S (S
+      (S (S (S (S (S (S (S (S (S (S (S (S (S (S (S (S (S (S (S (S (S (S (S (S
+      (S (S (S (S (S (S (S (S (S (S (S
+      O))))))))))))))))))))))))))))))))))))))))))))))))))))))))))))))))))))))))))))))))))))))))))))))))))))))))))))))))))))))))))))))))
+      (nat_of_ascii c))
+
+(** val starts_with : char list -> char list -> char list option **)
+
+let rec starts_with w s =
+  match w with
+  | [] -> Some s
+  | a::w' ->
+    (match s with
+     | [] -> None
+     | b::s' -> if (=) a b then starts_with w' s' else None)
+
+(** val literal_at :
+    char list -> char list -> (literal * char list) option **)
+
+let literal_at pre line =
+  match starts_with pre line with
+  | Some r -> lex_prefix r
+  | None -> None
+
+(** val boundary_after : char list -> bool **)
+
+let boundary_after = function
+| [] -> true
+| c::_ -> negb (is_word c)
+
+(** val replace_word_aux :
+    char list -> char list -> nat -> bool -> char list -> char list **)
+
+let rec replace_word_aux w d skip prev_word s = match s with
+| [] -> []
+| c::r ->
+  (match skip with
+   | O ->
+     (match if prev_word then None else starts_with w s with
+      | Some rest ->
+        if boundary_after rest
+        then append d
+               (replace_word_aux w d (sub (length0 w) (S O)) (is_word c) r)
+        else c::(replace_word_aux w d O (is_word c) r)
+      | None -> c::(replace_word_aux w d O (is_word c) r))
+   | S k -> replace_word_aux w d k (is_word c) r)
+
+(** val replace_word : char list -> char list -> char list -> char list **)
+
+let replace_word w d s =
+  replace_word_aux w d O false s
+
+(** val subst_line :
+    (char list * char list) list -> char list -> char list **)
+
+let subst_line repl line =
+  fold_left (fun l sd -> replace_word (fst sd) (snd sd) l) repl line
+
+type backend =
+| Atlas
+| CmsAod
+| CmsMiniaod
+
+(** val bank_template : backend -> char list -> char list **)
+
+let bank_template b ty =
+  match b with
+  | Atlas ->
+    'A'::('N'::('A'::('_'::('C'::('H'::('E'::('C'::('K'::(' '::('('::('e'::('v'::('t'::('S'::('t'::('o'::('r'::('e'::('('::(')'::('-'::('>'::('r'::('e'::('t'::('r'::('i'::('e'::('v'::('e'::('('::('r'::('e'::('s'::('u'::('l'::('t'::(','::(' '::('c'::('o'::('l'::('l'::('e'::('c'::('t'::('i'::('o'::('n'::('_'::('n'::('a'::('m'::('e'::(')'::(')'::(';'::[])))))))))))))))))))))))))))))))))))))))))))))))))))))))))
+  | CmsAod ->
+    'i'::('E'::('v'::('e'::('n'::('t'::('.'::('g'::('e'::('t'::('B'::('y'::('L'::('a'::('b'::('e'::('l'::('('::('c'::('o'::('l'::('l'::('e'::('c'::('t'::('i'::('o'::('n'::('_'::('n'::('a'::('m'::('e'::(','::(' '::('r'::('e'::('s'::('u'::('l'::('t'::(')'::(';'::[]))))))))))))))))))))))))))))))))))))))))))
+  | CmsMiniaod ->
+    append ('c'::('o'::('n'::('s'::('u'::('m'::('e'::('s'::('<'::[])))))))))
+      (append ty
+        ('>'::('('::('e'::('d'::('m'::(':'::(':'::('I'::('n'::('p'::('u'::('t'::('T'::('a'::('g'::('('::('c'::('o'::('l'::('l'::('e'::('c'::('t'::('i'::('o'::('n'::('_'::('n'::('a'::('m'::('e'::(')'::(')'::[]))))))))))))))))))))))))))))))))))
+
+(** val bank_line : backend -> char list -> char list -> char list result **)
+
+let bank_line b ty name =
+  match render (CStr name) with
+  | OK a ->
+    let (txt, _) = a in
+    OK
+    (subst_line
+      ((('c'::('o'::('l'::('l'::('e'::('c'::('t'::('i'::('o'::('n'::('_'::('n'::('a'::('m'::('e'::[]))))))))))))))),
+      txt) :: []) (bank_template b ty))
+  | Error e -> Error e
+
+(** val attribute_line : char list -> char list -> char list result **)
+
+let attribute_line obj attr =
+  match render (CStr attr) with
+  | OK a ->
+    let (txt, _) = a in
+    OK
+    (subst_line ((('o'::('b'::('j'::('_'::('j'::[]))))),
+      obj) :: ((('m'::('o'::('m'::('e'::('n'::('t'::('_'::('n'::('a'::('m'::('e'::[]))))))))))),
+      txt) :: []))
+      ('a'::('u'::('t'::('o'::(' '::('r'::('e'::('s'::('u'::('l'::('t'::(' '::('='::(' '::('o'::('b'::('j'::('_'::('j'::('-'::('>'::('g'::('e'::('t'::('A'::('t'::('t'::('r'::('i'::('b'::('u'::('t'::('e'::('<'::('f'::('l'::('o'::('a'::('t'::('>'::('('::('m'::('o'::('m'::('e'::('n'::('t'::('_'::('n'::('a'::('m'::('e'::(')'::(';'::[])))))))))))))))))))))))))))))))))))))))))))))))))))))))
+  | Error e -> Error e
+
+(** val branch_line : (char list * char list) -> char list **)
+
+let branch_line leaf =
+  append
+    ('m'::('y'::('T'::('r'::('e'::('e'::('-'::('>'::('B'::('r'::('a'::('n'::('c'::('h'::('('::[])))))))))))))))
+    (append (cpp_string_literal (fst leaf))
+      (append (','::(' '::('&'::[]))) (append (snd leaf) (')'::(';'::[])))))
+
+(** val book_lines :
+    backend -> char list -> (char list * char list) list -> char list list **)
+
+let book_lines b tree leaves =
+  match b with
+  | Atlas ->
+    (append
+      ('A'::('N'::('A'::('_'::('C'::('H'::('E'::('C'::('K'::(' '::('('::('b'::('o'::('o'::('k'::(' '::('('::('T'::('T'::('r'::('e'::('e'::(' '::('('::[]))))))))))))))))))))))))
+      (append (cpp_string_literal tree)
+        (','::(' '::('"'::('M'::('y'::(' '::('a'::('n'::('a'::('l'::('y'::('s'::('i'::('s'::(' '::('n'::('t'::('u'::('p'::('l'::('e'::('"'::(')'::(')'::(')'::(';'::[])))))))))))))))))))))))))))) :: (
+      (append
+        ('a'::('u'::('t'::('o'::(' '::('m'::('y'::('T'::('r'::('e'::('e'::(' '::('='::(' '::('t'::('r'::('e'::('e'::(' '::('('::[]))))))))))))))))))))
+        (append (cpp_string_literal tree) (')'::(';'::[])))) :: (map
+                                                                  branch_line
+                                                                  leaves))
+  | _ ->
+    ('e'::('d'::('m'::(':'::(':'::('S'::('e'::('r'::('v'::('i'::('c'::('e'::('<'::('T'::('F'::('i'::('l'::('e'::('S'::('e'::('r'::('v'::('i'::('c'::('e'::('>'::(' '::('f'::('s'::(';'::[])))))))))))))))))))))))))))))) :: (
+      (append
+        ('m'::('y'::('T'::('r'::('e'::('e'::(' '::('='::(' '::('f'::('s'::('-'::('>'::('m'::('a'::('k'::('e'::('<'::('T'::('T'::('r'::('e'::('e'::('>'::('('::[])))))))))))))))))))))))))
+        (append (cpp_string_literal tree)
+          (','::(' '::('"'::('M'::('y'::(' '::('a'::('n'::('a'::('l'::('y'::('s'::('i'::('s'::(' '::('n'::('t'::('u'::('p'::('l'::('e'::('"'::(')'::(';'::[])))))))))))))))))))))))))) :: 
+      (map branch_line leaves))
+
+(** val fill_line : backend -> char list -> char list **)
+
+let fill_line b tree =
+  match b with
+  | Atlas ->
+    append ('t'::('r'::('e'::('e'::('('::[])))))
+      (append (cpp_string_literal tree)
+        (')'::('-'::('>'::('F'::('i'::('l'::('l'::('('::(')'::(';'::[])))))))))))
+  | _ ->
+    'm'::('y'::('T'::('r'::('e'::('e'::('-'::('>'::('F'::('i'::('l'::('l'::('('::(')'::(';'::[]))))))))))))))
+
+(** val d_const : sexp -> const option **)
+
+let d_const = function
+| SAtom _ -> None
+| SList l ->
+  (match l with
+   | [] -> None
+   | s0 :: l0 ->
+     (match s0 with
+      | SAtom s1 ->
+        (match s1 with
+         | [] -> None
+         | a::s2 ->
+           (* If this appears, you're using Ascii internals. Please don't *)
+ (fun f c ->
+  let n = Char.code c in
+  let h i = (n land (1 lsl i)) <> 0 in
+  f (h 0) (h 1) (h 2) (h 3) (h 4) (h 5) (h 6) (h 7))
+             (fun b0 b1 b2 b3 b4 b5 b6 b7 ->
+             if b0
+             then if b1
+                  then if b2
+                       then if b3
+                            then if b4
+                                 then None
+                                 else if b5
+                                      then if b6
+                                           then if b7
+                                                then None
+                                                else (match s2 with
+                                                      | [] -> None
+                                                      | a0::s3 ->
+                                                        (* If this appears, you're using Ascii internals. Please don't *)
+ (fun f c ->
+  let n = Char.code c in
+  let h i = (n land (1 lsl i)) <> 0 in
+  f (h 0) (h 1) (h 2) (h 3) (h 4) (h 5) (h 6) (h 7))
+                                                          (fun b b8 b9 b10 b11 b12 b13 b14 ->
+                                                          if b
+                                                          then None
+                                                          else if b8
+                                                               then None
+                                                               else if b9
+                                                                    then 
+                                                                    if b10
+                                                                    then None
+                                                                    else 
+                                                                    if b11
+                                                                    then 
+                                                                    if b12
+                                                                    then 
+                                                                    if b13
+                                                                    then 
+                                                                    if b14
+                                                                    then None
+                                                                    else 
+                                                                    (match s3 with
+                                                                    | [] ->
+                                                                    None
+                                                                    | a1::s4 ->
+                                                                    (* If this appears, you're using Ascii internals. Please don't *)
+ (fun f c ->
+  let n = Char.code c in
+  let h i = (n land (1 lsl i)) <> 0 in
+  f (h 0) (h 1) (h 2) (h 3) (h 4) (h 5) (h 6) (h 7))
+                                                                    (fun b15 b16 b17 b18 b19 b20 b21 b22 ->
+                                                                    if b15
+                                                                    then None
+                                                                    else 
+                                                                    if b16
+                                                                    then None
+                                                                    else 
+                                                                    if b17
+                                                                    then None
+                                                                    else 
+                                                                    if b18
+                                                                    then 
+                                                                    if b19
+                                                                    then None
+                                                                    else 
+                                                                    if b20
+                                                                    then 
+                                                                    if b21
+                                                                    then 
+                                                                    if b22
+                                                                    then None
+                                                                    else 
+                                                                    (match s4 with
+                                                                    | [] ->
+                                                                    None
+                                                                    | a2::s5 ->
+                                                                    (* If this appears, you're using Ascii internals. Please don't *)
+ (fun f c ->
+  let n = Char.code c in
+  let h i = (n land (1 lsl i)) <> 0 in
+  f (h 0) (h 1) (h 2) (h 3) (h 4) (h 5) (h 6) (h 7))
+                                                                    (fun b23 b24 b25 b26 b27 b28 b29 b30 ->
+                                                                    if b23
+                                                                    then 
+                                                                    if b24
+                                                                    then None
+                                                                    else 
+                                                                    if b25
+                                                                    then 
+                                                                    if b26
+                                                                    then None
+                                                                    else 
+                                                                    if b27
+                                                                    then None
+                                                                    else 
+                                                                    if b28
+                                                                    then 
+                                                                    if b29
+                                                                    then 
+                                                                    if b30
+                                                                    then None
+                                                                    else 
+                                                                    (match s5 with
+                                                                    | [] ->
+                                                                    None
+                                                                    | a3::s6 ->
+                                                                    (* If this appears, you're using Ascii internals. Please don't *)
+ (fun f c ->
+  let n = Char.code c in
+  let h i = (n land (1 lsl i)) <> 0 in
+  f (h 0) (h 1) (h 2) (h 3) (h 4) (h 5) (h 6) (h 7))
+                                                                    (fun b31 b32 b33 b34 b35 b36 b37 b38 ->
+                                                                    if b31
+                                                                    then None
+                                                                    else 
+                                                                    if b32
+                                                                    then 
+                                                                    if b33
+                                                                    then None
+                                                                    else 
+                                                                    if b34
+                                                                    then None
+                                                                    else 
+                                                                    if b35
+                                                                    then 
+                                                                    if b36
+                                                                    then 
+                                                                    if b37
+                                                                    then 
+                                                                    if b38
+                                                                    then None
+                                                                    else 
+                                                                    (match s6 with
+                                                                    | [] ->
+                                                                    (match l0 with
+                                                                    | [] ->
+                                                                    Some
+                                                                    COther
+                                                                    | _ :: _ ->
+                                                                    None)
+                                                                    | _::_ ->
+                                                                    None)
+                                                                    else None
+                                                                    else None
+                                                                    else None
+                                                                    else None)
+                                                                    a3)
+                                                                    else None
+                                                                    else None
+                                                                    else None
+                                                                    else None)
+                                                                    a2)
+                                                                    else None
+                                                                    else None
+                                                                    else None)
+                                                                    a1)
+                                                                    else None
+                                                                    else None
+                                                                    else None
+                                                                    else None)
+                                                          a0)
+                                           else None
+                                      else None
+                            else None
+                       else if b3
+                            then None
+                            else if b4
+                                 then if b5
+                                      then if b6
+                                           then if b7
+                                                then None
+                                                else (match s2 with
+                                                      | [] -> None
+                                                      | a0::s3 ->
+                                                        (* If this appears, you're using Ascii internals. Please don't *)
+ (fun f c ->
+  let n = Char.code c in
+  let h i = (n land (1 lsl i)) <> 0 in
+  f (h 0) (h 1) (h 2) (h 3) (h 4) (h 5) (h 6) (h 7))
+                                                          (fun b b8 b9 b10 b11 b12 b13 b14 ->
+                                                          if b
+                                                          then None
+                                                          else if b8
+                                                               then None
+                                                               else if b9
+                                                                    then 
+                                                                    if b10
+                                                                    then None
+                                                                    else 
+                                                                    if b11
+                                                                    then 
+                                                                    if b12
+                                                                    then 
+                                                                    if b13
+                                                                    then 
+                                                                    if b14
+                                                                    then None
+                                                                    else 
+                                                                    (match s3 with
+                                                                    | [] ->
+                                                                    None
+                                                                    | a1::s4 ->
+                                                                    (* If this appears, you're using Ascii internals. Please don't *)
+ (fun f c ->
+  let n = Char.code c in
+  let h i = (n land (1 lsl i)) <> 0 in
+  f (h 0) (h 1) (h 2) (h 3) (h 4) (h 5) (h 6) (h 7))
+                                                                    (fun b15 b16 b17 b18 b19 b20 b21 b22 ->
+                                                                    if b15
+                                                                    then None
+                                                                    else 
+                                                                    if b16
+                                                                    then 
+                                                                    if b17
+                                                                    then None
+                                                                    else 
+                                                                    if b18
+                                                                    then None
+                                                                    else 
+                                                                    if b19
+                                                                    then 
+                                                                    if b20
+                                                                    then 
+                                                                    if b21
+                                                                    then 
+                                                                    if b22
+                                                                    then None
+                                                                    else 
+                                                                    (match s4 with
+                                                                    | [] ->
+                                                                    (match l0 with
+                                                                    | [] ->
+                                                                    None
+                                                                    | s5 :: l1 ->
+                                                                    (match s5 with
+                                                                    | SAtom t ->
+                                                                    (match l1 with
+                                                                    | [] ->
+                                                                    Some
+                                                                    (CStr t)
+                                                                    | _ :: _ ->
+                                                                    None)
+                                                                    | SList _ ->
+                                                                    None))
+                                                                    | _::_ ->
+                                                                    None)
+                                                                    else None
+                                                                    else None
+                                                                    else None
+                                                                    else None)
+                                                                    a1)
+                                                                    else None
+                                                                    else None
+                                                                    else None
+                                                                    else None)
+                                                          a0)
+                                           else None
+                                      else None
+                                 else None
+                  else if b2
+                       then None
+                       else if b3
+                            then if b4
+                                 then None
+                                 else if b5
+                                      then if b6
+                                           then if b7
+                                                then None
+                                                else (match s2 with
+                                                      | [] -> None
+                                                      | a0::s3 ->
+                                                        (* If this appears, you're using Ascii internals. Please don't *)
+ (fun f c ->
+  let n = Char.code c in
+  let h i = (n land (1 lsl i)) <> 0 in
+  f (h 0) (h 1) (h 2) (h 3) (h 4) (h 5) (h 6) (h 7))
+                                                          (fun b b8 b9 b10 b11 b12 b13 b14 ->
+                                                          if b
+                                                          then None
+                                                          else if b8
+                                                               then if b9
+                                                                    then 
+                                                                    if b10
+                                                                    then 
+                                                                    if b11
+                                                                    then None
+                                                                    else 
+                                                                    if b12
+                                                                    then 
+                                                                    if b13
+                                                                    then 
+                                                                    if b14
+                                                                    then None
+                                                                    else 
+                                                                    (match s3 with
+                                                                    | [] ->
+                                                                    None
+                                                                    | a1::s4 ->
+                                                                    (* If this appears, you're using Ascii internals. Please don't *)
+ (fun f c ->
+  let n = Char.code c in
+  let h i = (n land (1 lsl i)) <> 0 in
+  f (h 0) (h 1) (h 2) (h 3) (h 4) (h 5) (h 6) (h 7))
+                                                                    (fun b15 b16 b17 b18 b19 b20 b21 b22 ->
+                                                                    if b15
+                                                                    then None
+                                                                    else 
+                                                                    if b16
+                                                                    then None
+                                                                    else 
+                                                                    if b17
+                                                                    then 
+                                                                    if b18
+                                                                    then None
+                                                                    else 
+                                                                    if b19
+                                                                    then 
+                                                                    if b20
+                                                                    then 
+                                                                    if b21
+                                                                    then 
+                                                                    if b22
+                                                                    then None
+                                                                    else 
+                                                                    (match s4 with
+                                                                    | [] ->
+                                                                    (match l0 with
+                                                                    | [] ->
+                                                                    None
+                                                                    | z0 :: l1 ->
+                                                                    (match l1 with
+                                                                    | [] ->
+                                                                    option_map
+                                                                    (fun x ->
+                                                                    CInt x)
+                                                                    (d_Z z0)
+                                                                    | _ :: _ ->
+                                                                    None))
+                                                                    | _::_ ->
+                                                                    None)
+                                                                    else None
+                                                                    else None
+                                                                    else None
+                                                                    else None)
+                                                                    a1)
+                                                                    else None
+                                                                    else None
+                                                                    else None
+                                                                    else None
+                                                               else None)
+                                                          a0)
+                                           else None
+                                      else None
+                            else None
+             else if b1
+                  then if b2
+                       then if b3
+                            then None
+                            else if b4
+                                 then None
+                                 else if b5
+                                      then if b6
+                                           then if b7
+                                                then None
+                                                else (match s2 with
+                                                      | [] -> None
+                                                      | a0::s3 ->
+                                                        (* If this appears, you're using Ascii internals. Please don't *)
+ (fun f c ->
+  let n = Char.code c in
+  let h i = (n land (1 lsl i)) <> 0 in
+  f (h 0) (h 1) (h 2) (h 3) (h 4) (h 5) (h 6) (h 7))
+                                                          (fun b b8 b9 b10 b11 b12 b13 b14 ->
+                                                          if b
+                                                          then None
+                                                          else if b8
+                                                               then None
+                                                               else if b9
+                                                                    then 
+                                                                    if b10
+                                                                    then 
+                                                                    if b11
+                                                                    then None
+                                                                    else 
+                                                                    if b12
+                                                                    then 
+                                                                    if b13
+                                                                    then 
+                                                                    if b14
+                                                                    then None
+                                                                    else 
+                                                                    (match s3 with
+                                                                    | [] ->
+                                                                    None
+                                                                    | a1::s4 ->
+                                                                    (* If this appears, you're using Ascii internals. Please don't *)
+ (fun f c ->
+  let n = Char.code c in
+  let h i = (n land (1 lsl i)) <> 0 in
+  f (h 0) (h 1) (h 2) (h 3) (h 4) (h 5) (h 6) (h 7))
+                                                                    (fun b15 b16 b17 b18 b19 b20 b21 b22 ->
+                                                                    if b15
+                                                                    then 
+                                                                    if b16
+                                                                    then 
+                                                                    if b17
+                                                                    then 
+                                                                    if b18
+                                                                    then 
+                                                                    if b19
+                                                                    then None
+                                                                    else 
+                                                                    if b20
+                                                                    then 
+                                                                    if b21
+                                                                    then 
+                                                                    if b22
+                                                                    then None
+                                                                    else 
+                                                                    (match s4 with
+                                                                    | [] ->
+                                                                    None
+                                                                    | a2::s5 ->
+                                                                    (* If this appears, you're using Ascii internals. Please don't *)
+ (fun f c ->
+  let n = Char.code c in
+  let h i = (n land (1 lsl i)) <> 0 in
+  f (h 0) (h 1) (h 2) (h 3) (h 4) (h 5) (h 6) (h 7))
+                                                                    (fun b23 b24 b25 b26 b27 b28 b29 b30 ->
+                                                                    if b23
+                                                                    then 
+                                                                    if b24
+                                                                    then None
+                                                                    else 
+                                                                    if b25
+                                                                    then None
+                                                                    else 
+                                                                    if b26
+                                                                    then None
+                                                                    else 
+                                                                    if b27
+                                                                    then None
+                                                                    else 
+                                                                    if b28
+                                                                    then 
+                                                                    if b29
+                                                                    then 
+                                                                    if b30
+                                                                    then None
+                                                                    else 
+                                                                    (match s5 with
+                                                                    | [] ->
+                                                                    None
+                                                                    | a3::s6 ->
+                                                                    (* If this appears, you're using Ascii internals. Please don't *)
+ (fun f c ->
+  let n = Char.code c in
+  let h i = (n land (1 lsl i)) <> 0 in
+  f (h 0) (h 1) (h 2) (h 3) (h 4) (h 5) (h 6) (h 7))
+                                                                    (fun b31 b32 b33 b34 b35 b36 b37 b38 ->
+                                                                    if b31
+                                                                    then None
+                                                                    else 
+                                                                    if b32
+                                                                    then None
+                                                                    else 
+                                                                    if b33
+                                                                    then 
+                                                                    if b34
+                                                                    then None
+                                                                    else 
+                                                                    if b35
+                                                                    then 
+                                                                    if b36
+                                                                    then 
+                                                                    if b37
+                                                                    then 
+                                                                    if b38
+                                                                    then None
+                                                                    else 
+                                                                    (match s6 with
+                                                                    | [] ->
+                                                                    (match l0 with
+                                                                    | [] ->
+                                                                    None
+                                                                    | s7 :: l1 ->
+                                                                    (match s7 with
+                                                                    | SAtom t ->
+                                                                    (match l1 with
+                                                                    | [] ->
+                                                                    Some
+                                                                    (CFloat t)
+                                                                    | _ :: _ ->
+                                                                    None)
+                                                                    | SList _ ->
+                                                                    None))
+                                                                    | _::_ ->
+                                                                    None)
+                                                                    else None
+                                                                    else None
+                                                                    else None
+                                                                    else None)
+                                                                    a3)
+                                                                    else None
+                                                                    else None
+                                                                    else None)
+                                                                    a2)
+                                                                    else None
+                                                                    else None
+                                                                    else None
+                                                                    else None
+                                                                    else None
+                                                                    else None)
+                                                                    a1)
+                                                                    else None
+                                                                    else None
+                                                                    else None
+                                                                    else None)
+                                                          a0)
+                                           else None
+                                      else None
+                       else if b3
+                            then None
+                            else if b4
+                                 then None
+                                 else if b5
+                                      then if b6
+                                           then if b7
+                                                then None
+                                                else (match s2 with
+                                                      | [] -> None
+                                                      | a0::s3 ->
+                                                        (* If this appears, you're using Ascii internals. Please don't *)
+ (fun f c ->
+  let n = Char.code c in
+  let h i = (n land (1 lsl i)) <> 0 in
+  f (h 0) (h 1) (h 2) (h 3) (h 4) (h 5) (h 6) (h 7))
+                                                          (fun b8 b9 b10 b11 b12 b13 b14 b15 ->
+                                                          if b8
+                                                          then if b9
+                                                               then if b10
+                                                                    then 
+                                                                    if b11
+                                                                    then 
+                                                                    if b12
+                                                                    then None
+                                                                    else 
+                                                                    if b13
+                                                                    then 
+                                                                    if b14
+                                                                    then 
+                                                                    if b15
+                                                                    then None
+                                                                    else 
+                                                                    (match s3 with
+                                                                    | [] ->
+                                                                    None
+                                                                    | a1::s4 ->
+                                                                    (* If this appears, you're using Ascii internals. Please don't *)
+ (fun f c ->
+  let n = Char.code c in
+  let h i = (n land (1 lsl i)) <> 0 in
+  f (h 0) (h 1) (h 2) (h 3) (h 4) (h 5) (h 6) (h 7))
+                                                                    (fun b16 b17 b18 b19 b20 b21 b22 b23 ->
+                                                                    if b16
+                                                                    then 
+                                                                    if b17
+                                                                    then 
+                                                                    if b18
+                                                                    then 
+                                                                    if b19
+                                                                    then 
+                                                                    if b20
+                                                                    then None
+                                                                    else 
+                                                                    if b21
+                                                                    then 
+                                                                    if b22
+                                                                    then 
+                                                                    if b23
+                                                                    then None
+                                                                    else 
+                                                                    (match s4 with
+                                                                    | [] ->
+                                                                    None
+                                                                    | a2::s5 ->
+                                                                    (* If this appears, you're using Ascii internals. Please don't *)
+ (fun f c ->
+  let n = Char.code c in
+  let h i = (n land (1 lsl i)) <> 0 in
+  f (h 0) (h 1) (h 2) (h 3) (h 4) (h 5) (h 6) (h 7))
+                                                                    (fun b24 b25 b26 b27 b28 b29 b30 b31 ->
+                                                                    if b24
+                                                                    then None
+                                                                    else 
+                                                                    if b25
+                                                                    then None
+                                                                    else 
+                                                                    if b26
+                                                                    then 
+                                                                    if b27
+                                                                    then 
+                                                                    if b28
+                                                                    then None
+                                                                    else 
+                                                                    if b29
+                                                                    then 
+                                                                    if b30
+                                                                    then 
+                                                                    if b31
+                                                                    then None
+                                                                    else 
+                                                                    (match s5 with
+                                                                    | [] ->
+                                                                    (match l0 with
+                                                                    | [] ->
+                                                                    None
+                                                                    | b :: l1 ->
+                                                                    (match l1 with
+                                                                    | [] ->
+                                                                    option_map
+                                                                    (fun x ->
+                                                                    CBool x)
+                                                                    (d_bool b)
+                                                                    | _ :: _ ->
+                                                                    None))
+                                                                    | _::_ ->
+                                                                    None)
+                                                                    else None
+                                                                    else None
+                                                                    else None
+                                                                    else None)
+                                                                    a2)
+                                                                    else None
+                                                                    else None
+                                                                    else None
+                                                                    else None
+                                                                    else None
+                                                                    else None)
+                                                                    a1)
+                                                                    else None
+                                                                    else None
+                                                                    else None
+                                                                    else None
+                                                               else None
+                                                          else None)
+                                                          a0)
+                                           else None
+                                      else None
+                  else None)
+             a)
+      | SList _ -> None))
+
+(** val d_backend : sexp -> backend option **)
+
+let d_backend = function
+| SAtom s0 ->
+  (match s0 with
+   | [] -> None
+   | a::s1 ->
+     (* If this appears, you're using Ascii internals. Please don't *)
+ (fun f c ->
+  let n = Char.code c in
+  let h i = (n land (1 lsl i)) <> 0 in
+  f (h 0) (h 1) (h 2) (h 3) (h 4) (h 5) (h 6) (h 7))
+       (fun b b0 b1 b2 b3 b4 b5 b6 ->
+       if b
+       then if b0
+            then if b1
+                 then None
+                 else if b2
+                      then None
+                      else if b3
+                           then None
+                           else if b4
+                                then if b5
+                                     then if b6
+                                          then None
+                                          else (match s1 with
+                                                | [] -> None
+                                                | a0::s2 ->
+                                                  (* If this appears, you're using Ascii internals. Please don't *)
+ (fun f c ->
+  let n = Char.code c in
+  let h i = (n land (1 lsl i)) <> 0 in
+  f (h 0) (h 1) (h 2) (h 3) (h 4) (h 5) (h 6) (h 7))
+                                                    (fun b7 b8 b9 b10 b11 b12 b13 b14 ->
+                                                    if b7
+                                                    then if b8
+                                                         then None
+                                                         else if b9
+                                                              then if b10
+                                                                   then 
+                                                                    if b11
+                                                                    then None
+                                                                    else 
+                                                                    if b12
+                                                                    then 
+                                                                    if b13
+                                                                    then 
+                                                                    if b14
+                                                                    then None
+                                                                    else 
+                                                                    (match s2 with
+                                                                    | [] ->
+                                                                    None
+                                                                    | a1::s3 ->
+                                                                    (* If this appears, you're using Ascii internals. Please don't *)
+ (fun f c ->
+  let n = Char.code c in
+  let h i = (n land (1 lsl i)) <> 0 in
+  f (h 0) (h 1) (h 2) (h 3) (h 4) (h 5) (h 6) (h 7))
+                                                                    (fun b15 b16 b17 b18 b19 b20 b21 b22 ->
+                                                                    if b15
+                                                                    then 
+                                                                    if b16
+                                                                    then 
+                                                                    if b17
+                                                                    then None
+                                                                    else 
+                                                                    if b18
+                                                                    then None
+                                                                    else 
+                                                                    if b19
+                                                                    then 
+                                                                    if b20
+                                                                    then 
+                                                                    if b21
+                                                                    then 
+                                                                    if b22
+                                                                    then None
+                                                                    else 
+                                                                    (match s3 with
+                                                                    | [] ->
+                                                                    None
+                                                                    | a2::s4 ->
+                                                                    (* If this appears, you're using Ascii internals. Please don't *)
+ (fun f c ->
+  let n = Char.code c in
+  let h i = (n land (1 lsl i)) <> 0 in
+  f (h 0) (h 1) (h 2) (h 3) (h 4) (h 5) (h 6) (h 7))
+                                                                    (fun b23 b24 b25 b26 b27 b28 b29 b30 ->
+                                                                    if b23
+                                                                    then 
+                                                                    if b24
+                                                                    then 
+                                                                    if b25
+                                                                    then 
+                                                                    if b26
+                                                                    then 
+                                                                    if b27
+                                                                    then 
+                                                                    if b28
+                                                                    then None
+                                                                    else 
+                                                                    if b29
+                                                                    then 
+                                                                    if b30
+                                                                    then None
+                                                                    else 
+                                                                    (match s4 with
+                                                                    | [] ->
+                                                                    None
+                                                                    | a3::s5 ->
+                                                                    (* If this appears, you're using Ascii internals. Please don't *)
+ (fun f c ->
+  let n = Char.code c in
+  let h i = (n land (1 lsl i)) <> 0 in
+  f (h 0) (h 1) (h 2) (h 3) (h 4) (h 5) (h 6) (h 7))
+                                                                    (fun b31 b32 b33 b34 b35 b36 b37 b38 ->
+                                                                    if b31
+                                                                    then 
+                                                                    if b32
+                                                                    then None
+                                                                    else 
+                                                                    if b33
+                                                                    then 
+                                                                    if b34
+                                                                    then 
+                                                                    if b35
+                                                                    then None
+                                                                    else 
+                                                                    if b36
+                                                                    then 
+                                                                    if b37
+                                                                    then 
+                                                                    if b38
+                                                                    then None
+                                                                    else 
+                                                                    (match s5 with
+                                                                    | [] ->
+                                                                    None
+                                                                    | a4::s6 ->
+                                                                    (* If this appears, you're using Ascii internals. Please don't *)
+ (fun f c ->
+  let n = Char.code c in
+  let h i = (n land (1 lsl i)) <> 0 in
+  f (h 0) (h 1) (h 2) (h 3) (h 4) (h 5) (h 6) (h 7))
+                                                                    (fun b39 b40 b41 b42 b43 b44 b45 b46 ->
+                                                                    if b39
+                                                                    then 
+                                                                    if b40
+                                                                    then None
+                                                                    else 
+                                                                    if b41
+                                                                    then None
+                                                                    else 
+                                                                    if b42
+                                                                    then 
+                                                                    if b43
+                                                                    then None
+                                                                    else 
+                                                                    if b44
+                                                                    then 
+                                                                    if b45
+                                                                    then 
+                                                                    if b46
+                                                                    then None
+                                                                    else 
+                                                                    (match s6 with
+                                                                    | [] ->
+                                                                    None
+                                                                    | a5::s7 ->
+                                                                    (* If this appears, you're using Ascii internals. Please don't *)
+ (fun f c ->
+  let n = Char.code c in
+  let h i = (n land (1 lsl i)) <> 0 in
+  f (h 0) (h 1) (h 2) (h 3) (h 4) (h 5) (h 6) (h 7))
+                                                                    (fun b47 b48 b49 b50 b51 b52 b53 b54 ->
+                                                                    if b47
+                                                                    then None
+                                                                    else 
+                                                                    if b48
+                                                                    then 
+                                                                    if b49
+                                                                    then 
+                                                                    if b50
+                                                                    then 
+                                                                    if b51
+                                                                    then None
+                                                                    else 
+                                                                    if b52
+                                                                    then 
+                                                                    if b53
+                                                                    then 
+                                                                    if b54
+                                                                    then None
+                                                                    else 
+                                                                    (match s7 with
+                                                                    | [] ->
+                                                                    None
+                                                                    | a6::s8 ->
+                                                                    (* If this appears, you're using Ascii internals. Please don't *)
+ (fun f c ->
+  let n = Char.code c in
+  let h i = (n land (1 lsl i)) <> 0 in
+  f (h 0) (h 1) (h 2) (h 3) (h 4) (h 5) (h 6) (h 7))
+                                                                    (fun b55 b56 b57 b58 b59 b60 b61 b62 ->
+                                                                    if b55
+                                                                    then 
+                                                                    if b56
+                                                                    then None
+                                                                    else 
+                                                                    if b57
+                                                                    then None
+                                                                    else 
+                                                                    if b58
+                                                                    then 
+                                                                    if b59
+                                                                    then None
+                                                                    else 
+                                                                    if b60
+                                                                    then 
+                                                                    if b61
+                                                                    then 
+                                                                    if b62
+                                                                    then None
+                                                                    else 
+                                                                    (match s8 with
+                                                                    | [] ->
+                                                                    None
+                                                                    | a7::s9 ->
+                                                                    (* If this appears, you're using Ascii internals. Please don't *)
+ (fun f c ->
+  let n = Char.code c in
+  let h i = (n land (1 lsl i)) <> 0 in
+  f (h 0) (h 1) (h 2) (h 3) (h 4) (h 5) (h 6) (h 7))
+                                                                    (fun b63 b64 b65 b66 b67 b68 b69 b70 ->
+                                                                    if b63
+                                                                    then 
+                                                                    if b64
+                                                                    then None
+                                                                    else 
+                                                                    if b65
+                                                                    then None
+                                                                    else 
+                                                                    if b66
+                                                                    then None
+                                                                    else 
+                                                                    if b67
+                                                                    then None
+                                                                    else 
+                                                                    if b68
+                                                                    then 
+                                                                    if b69
+                                                                    then 
+                                                                    if b70
+                                                                    then None
+                                                                    else 
+                                                                    (match s9 with
+                                                                    | [] ->
+                                                                    None
+                                                                    | a8::s10 ->
+                                                                    (* If this appears, you're using Ascii internals. Please don't *)
+ (fun f c ->
+  let n = Char.code c in
+  let h i = (n land (1 lsl i)) <> 0 in
+  f (h 0) (h 1) (h 2) (h 3) (h 4) (h 5) (h 6) (h 7))
+                                                                    (fun b71 b72 b73 b74 b75 b76 b77 b78 ->
+                                                                    if b71
+                                                                    then 
+                                                                    if b72
+                                                                    then 
+                                                                    if b73
+                                                                    then 
+                                                                    if b74
+                                                                    then 
+                                                                    if b75
+                                                                    then None
+                                                                    else 
+                                                                    if b76
+                                                                    then 
+                                                                    if b77
+                                                                    then 
+                                                                    if b78
+                                                                    then None
+                                                                    else 
+                                                                    (match s10 with
+                                                                    | [] ->
+                                                                    None
+                                                                    | a9::s11 ->
+                                                                    (* If this appears, you're using Ascii internals. Please don't *)
+ (fun f c ->
+  let n = Char.code c in
+  let h i = (n land (1 lsl i)) <> 0 in
+  f (h 0) (h 1) (h 2) (h 3) (h 4) (h 5) (h 6) (h 7))
+                                                                    (fun b79 b80 b81 b82 b83 b84 b85 b86 ->
+                                                                    if b79
+                                                                    then None
+                                                                    else 
+                                                                    if b80
+                                                                    then None
+                                                                    else 
+                                                                    if b81
+                                                                    then 
+                                                                    if b82
+                                                                    then None
+                                                                    else 
+                                                                    if b83
+                                                                    then None
+                                                                    else 
+                                                                    if b84
+                                                                    then 
+                                                                    if b85
+                                                                    then 
+                                                                    if b86
+                                                                    then None
+                                                                    else 
+                                                                    (match s11 with
+                                                                    | [] ->
+                                                                    Some
+                                                                    CmsMiniaod
+                                                                    | _::_ ->
+                                                                    None)
+                                                                    else None
+                                                                    else None
+                                                                    else None)
+                                                                    a9)
+                                                                    else None
+                                                                    else None
+                                                                    else None
+                                                                    else None
+                                                                    else None
+                                                                    else None)
+                                                                    a8)
+                                                                    else None
+                                                                    else None
+                                                                    else None)
+                                                                    a7)
+                                                                    else None
+                                                                    else None
+                                                                    else None
+                                                                    else None)
+                                                                    a6)
+                                                                    else None
+                                                                    else None
+                                                                    else None
+                                                                    else None
+                                                                    else None)
+                                                                    a5)
+                                                                    else None
+                                                                    else None
+                                                                    else None
+                                                                    else None)
+                                                                    a4)
+                                                                    else None
+                                                                    else None
+                                                                    else None
+                                                                    else 
+                                                                    if b34
+                                                                    then None
+                                                                    else 
+                                                                    if b35
+                                                                    then None
+                                                                    else 
+                                                                    if b36
+                                                                    then 
+                                                                    if b37
+                                                                    then 
+                                                                    if b38
+                                                                    then None
+                                                                    else 
+                                                                    (match s5 with
+                                                                    | [] ->
+                                                                    None
+                                                                    | a4::s6 ->
+                                                                    (* If this appears, you're using Ascii internals. Please don't *)
+ (fun f c ->
+  let n = Char.code c in
+  let h i = (n land (1 lsl i)) <> 0 in
+  f (h 0) (h 1) (h 2) (h 3) (h 4) (h 5) (h 6) (h 7))
+                                                                    (fun b39 b40 b41 b42 b43 b44 b45 b46 ->
+                                                                    if b39
+                                                                    then 
+                                                                    if b40
+                                                                    then 
+                                                                    if b41
+                                                                    then 
+                                                                    if b42
+                                                                    then 
+                                                                    if b43
+                                                                    then None
+                                                                    else 
+                                                                    if b44
+                                                                    then 
+                                                                    if b45
+                                                                    then 
+                                                                    if b46
+                                                                    then None
+                                                                    else 
+                                                                    (match s6 with
+                                                                    | [] ->
+                                                                    None
+                                                                    | a5::s7 ->
+                                                                    (* If this appears, you're using Ascii internals. Please don't *)
+ (fun f c ->
+  let n = Char.code c in
+  let h i = (n land (1 lsl i)) <> 0 in
+  f (h 0) (h 1) (h 2) (h 3) (h 4) (h 5) (h 6) (h 7))
+                                                                    (fun b47 b48 b49 b50 b51 b52 b53 b54 ->
+                                                                    if b47
+                                                                    then None
+                                                                    else 
+                                                                    if b48
+                                                                    then None
+                                                                    else 
+                                                                    if b49
+                                                                    then 
+                                                                    if b50
+                                                                    then None
+                                                                    else 
+                                                                    if b51
+                                                                    then None
+                                                                    else 
+                                                                    if b52
+                                                                    then 
+                                                                    if b53
+                                                                    then 
+                                                                    if b54
+                                                                    then None
+                                                                    else 
+                                                                    (match s7 with
+                                                                    | [] ->
+                                                                    Some
+                                                                    CmsAod
+                                                                    | _::_ ->
+                                                                    None)
+                                                                    else None
+                                                                    else None
+                                                                    else None)
+                                                                    a5)
+                                                                    else None
+                                                                    else None
+                                                                    else None
+                                                                    else None
+                                                                    else None
+                                                                    else None)
+                                                                    a4)
+                                                                    else None
+                                                                    else None
+                                                                    else None)
+                                                                    a3)
+                                                                    else None
+                                                                    else None
+                                                                    else None
+                                                                    else None
+                                                                    else None
+                                                                    else None)
+                                                                    a2)
+                                                                    else None
+                                                                    else None
+                                                                    else None
+                                                                    else None
+                                                                    else None)
+                                                                    a1)
+                                                                    else None
+                                                                    else None
+                                                                   else None
+                                                              else None
+                                                    else None)
+                                                    a0)
+                                     else None
+                                else None
+            else if b1
+                 then None
+                 else if b2
+                      then None
+                      else if b3
+                           then None
+                           else if b4
+                                then if b5
+                                     then if b6
+                                          then None
+                                          else (match s1 with
+                                                | [] -> None
+                                                | a0::s2 ->
+                                                  (* If this appears, you're using Ascii internals. Please don't *)
+ (fun f c ->
+  let n = Char.code c in
+  let h i = (n land (1 lsl i)) <> 0 in
+  f (h 0) (h 1) (h 2) (h 3) (h 4) (h 5) (h 6) (h 7))
+                                                    (fun b7 b8 b9 b10 b11 b12 b13 b14 ->
+                                                    if b7
+                                                    then None
+                                                    else if b8
+                                                         then None
+                                                         else if b9
+                                                              then if b10
+                                                                   then None
+                                                                   else 
+                                                                    if b11
+                                                                    then 
+                                                                    if b12
+                                                                    then 
+                                                                    if b13
+                                                                    then 
+                                                                    if b14
+                                                                    then None
+                                                                    else 
+                                                                    (match s2 with
+                                                                    | [] ->
+                                                                    None
+                                                                    | a1::s3 ->
+                                                                    (* If this appears, you're using Ascii internals. Please don't *)
+ (fun f c ->
+  let n = Char.code c in
+  let h i = (n land (1 lsl i)) <> 0 in
+  f (h 0) (h 1) (h 2) (h 3) (h 4) (h 5) (h 6) (h 7))
+                                                                    (fun b15 b16 b17 b18 b19 b20 b21 b22 ->
+                                                                    if b15
+                                                                    then None
+                                                                    else 
+                                                                    if b16
+                                                                    then None
+                                                                    else 
+                                                                    if b17
+                                                                    then 
+                                                                    if b18
+                                                                    then 
+                                                                    if b19
+                                                                    then None
+                                                                    else 
+                                                                    if b20
+                                                                    then 
+                                                                    if b21
+                                                                    then 
+                                                                    if b22
+                                                                    then None
+                                                                    else 
+                                                                    (match s3 with
+                                                                    | [] ->
+                                                                    None
+                                                                    | a2::s4 ->
+                                                                    (* If this appears, you're using Ascii internals. Please don't *)
+ (fun f c ->
+  let n = Char.code c in
+  let h i = (n land (1 lsl i)) <> 0 in
+  f (h 0) (h 1) (h 2) (h 3) (h 4) (h 5) (h 6) (h 7))
+                                                                    (fun b23 b24 b25 b26 b27 b28 b29 b30 ->
+                                                                    if b23
+                                                                    then 
+                                                                    if b24
+                                                                    then None
+                                                                    else 
+                                                                    if b25
+                                                                    then None
+                                                                    else 
+                                                                    if b26
+                                                                    then None
+                                                                    else 
+                                                                    if b27
+                                                                    then None
+                                                                    else 
+                                                                    if b28
+                                                                    then 
+                                                                    if b29
+                                                                    then 
+                                                                    if b30
+                                                                    then None
+                                                                    else 
+                                                                    (match s4 with
+                                                                    | [] ->
+                                                                    None
+                                                                    | a3::s5 ->
+                                                                    (* If this appears, you're using Ascii internals. Please don't *)
+ (fun f c ->
+  let n = Char.code c in
+  let h i = (n land (1 lsl i)) <> 0 in
+  f (h 0) (h 1) (h 2) (h 3) (h 4) (h 5) (h 6) (h 7))
+                                                                    (fun b31 b32 b33 b34 b35 b36 b37 b38 ->
+                                                                    if b31
+                                                                    then 
+                                                                    if b32
+                                                                    then 
+                                                                    if b33
+                                                                    then None
+                                                                    else 
+                                                                    if b34
+                                                                    then None
+                                                                    else 
+                                                                    if b35
+                                                                    then 
+                                                                    if b36
+                                                                    then 
+                                                                    if b37
+                                                                    then 
+                                                                    if b38
+                                                                    then None
+                                                                    else 
+                                                                    (match s5 with
+                                                                    | [] ->
+                                                                    Some Atlas
+                                                                    | _::_ ->
+                                                                    None)
+                                                                    else None
+                                                                    else None
+                                                                    else None
+                                                                    else None
+                                                                    else None)
+                                                                    a3)
+                                                                    else None
+                                                                    else None
+                                                                    else None)
+                                                                    a2)
+                                                                    else None
+                                                                    else None
+                                                                    else None
+                                                                    else None)
+                                                                    a1)
+                                                                    else None
+                                                                    else None
+                                                                    else None
+                                                              else None)
+                                                    a0)
+                                     else None
+                                else None
+       else None)
+       a)
+| SList _ -> None
+
+(** val s_rendered : (char list * ctype) -> sexp **)
+
+let s_rendered p =
+  SList ((SAtom (fst p)) :: ((SAtom (ctype_name (snd p))) :: []))
+
+(** val run_render : sexp -> sexp **)
+
+let run_render a =
+  match d_const a with
+  | Some c -> s_result s_rendered (render c)
+  | None -> bad_input
+
+(** val run_render_v0 : sexp -> sexp **)
+
+let run_render_v0 a =
+  match d_const a with
+  | Some c -> s_result s_rendered (render_v0 c)
+  | None -> bad_input
+
+(** val run_bank : sexp -> sexp **)
+
+let run_bank = function
+| SAtom _ -> bad_input
+| SList l ->
+  (match l with
+   | [] -> bad_input
+   | b :: l0 ->
+     (match l0 with
+      | [] -> bad_input
+      | s :: l1 ->
+        (match s with
+         | SAtom ty ->
+           (match l1 with
+            | [] -> bad_input
+            | s0 :: l2 ->
+              (match s0 with
+               | SAtom name ->
+                 (match l2 with
+                  | [] ->
+                    (match d_backend b with
+                     | Some b' -> s_result s_str (bank_line b' ty name)
+                     | None -> bad_input)
+                  | _ :: _ -> bad_input)
+               | SList _ -> bad_input))
+         | SList _ -> bad_input)))
+
+(** val run_attribute : sexp -> sexp **)
+
+let run_attribute = function
+| SAtom _ -> bad_input
+| SList l ->
+  (match l with
+   | [] -> bad_input
+   | s :: l0 ->
+     (match s with
+      | SAtom obj ->
+        (match l0 with
+         | [] -> bad_input
+         | s0 :: l1 ->
+           (match s0 with
+            | SAtom attr ->
+              (match l1 with
+               | [] -> s_result s_str (attribute_line obj attr)
+               | _ :: _ -> bad_input)
+            | SList _ -> bad_input))
+      | SList _ -> bad_input))
+
+(** val d_leaf : sexp -> (char list * char list) option **)
+
+let d_leaf = function
+| SAtom _ -> None
+| SList l ->
+  (match l with
+   | [] -> None
+   | s0 :: l0 ->
+     (match s0 with
+      | SAtom n0 ->
+        (match l0 with
+         | [] -> None
+         | s1 :: l1 ->
+           (match s1 with
+            | SAtom v -> (match l1 with
+                          | [] -> Some (n0, v)
+                          | _ :: _ -> None)
+            | SList _ -> None))
+      | SList _ -> None))
+
+(** val run_book : sexp -> sexp **)
+
+let run_book = function
+| SAtom _ -> bad_input
+| SList l ->
+  (match l with
+   | [] -> bad_input
+   | b :: l0 ->
+     (match l0 with
+      | [] -> bad_input
+      | s :: l1 ->
+        (match s with
+         | SAtom tree ->
+           (match l1 with
+            | [] -> bad_input
+            | s0 :: l2 ->
+              (match s0 with
+               | SAtom _ -> bad_input
+               | SList ls ->
+                 (match l2 with
+                  | [] ->
+                    (match d_backend b with
+                     | Some b' ->
+                       (match d_list d_leaf ls with
+                        | Some leaves ->
+                          SList
+                            ((s_strs (book_lines b' tree leaves)) :: ((SAtom
+                            (fill_line b' tree)) :: []))
+                        | None -> bad_input)
+                     | None -> bad_input)
+                  | _ :: _ -> bad_input)))
+         | SList _ -> bad_input)))
+
+(** val run_literal_at : sexp -> sexp **)
+
+let run_literal_at = function
+| SAtom _ -> bad_input
+| SList l ->
+  (match l with
+   | [] -> bad_input
+   | s :: l0 ->
+     (match s with
+      | SAtom pre ->
+        (match l0 with
+         | [] -> bad_input
+         | s0 :: l1 ->
+           (match s0 with
+            | SAtom line ->
+              (match l1 with
+               | [] ->
+                 (match literal_at pre line with
+                  | Some p ->
+                    let (l2, rest) = p in
+                    s_tag ('s'::('o'::('m'::('e'::[]))))
+                      ((s_literal l2) :: ((SAtom rest) :: []))
+                  | None -> s_tag ('n'::('o'::('n'::('e'::[])))) [])
+               | _ :: _ -> bad_input)
+            | SList _ -> bad_input))
+      | SList _ -> bad_input))
+
+(** val run_float_grammar : sexp -> sexp **)
+
+let run_float_grammar = function
+| SAtom t ->
+  SList
+    ((s_bool (py_float_repr t)) :: ((s_bool (py_float_finite t)) :: (
+    (s_bool (cpp_float_lit (snd (strip_minus t)))) :: [])))
+| SList _ -> bad_input
 
 (** val dispatch : char list -> sexp -> sexp **)
 
@@ -924,6 +4390,30 @@ let dispatch cmd arg =
   else if eqb0 cmd
             ('c'::('1'::('2'::('.'::('a'::('u'::('d'::('i'::('t'::[])))))))))
        then audit math_env documented
-       else s_tag
-              ('u'::('n'::('k'::('n'::('o'::('w'::('n'::('-'::('c'::('o'::('m'::('m'::('a'::('n'::('d'::[])))))))))))))))
-              ((SAtom cmd) :: [])
+       else if eqb0 cmd
+                 ('c'::('1'::('8'::('.'::('r'::('e'::('n'::('d'::('e'::('r'::[]))))))))))
+            then run_render arg
+            else if eqb0 cmd
+                      ('c'::('1'::('8'::('.'::('r'::('e'::('n'::('d'::('e'::('r'::('_'::('v'::('0'::[])))))))))))))
+                 then run_render_v0 arg
+                 else if eqb0 cmd
+                           ('c'::('1'::('8'::('.'::('l'::('e'::('x'::('_'::('p'::('r'::('e'::('f'::('i'::('x'::[]))))))))))))))
+                      then run_lex_prefix arg
+                      else if eqb0 cmd
+                                ('c'::('1'::('8'::('.'::('l'::('i'::('t'::('e'::('r'::('a'::('l'::('_'::('a'::('t'::[]))))))))))))))
+                           then run_literal_at arg
+                           else if eqb0 cmd
+                                     ('c'::('1'::('8'::('.'::('b'::('a'::('n'::('k'::[]))))))))
+                                then run_bank arg
+                                else if eqb0 cmd
+                                          ('c'::('1'::('8'::('.'::('a'::('t'::('t'::('r'::('i'::('b'::('u'::('t'::('e'::[])))))))))))))
+                                     then run_attribute arg
+                                     else if eqb0 cmd
+                                               ('c'::('1'::('8'::('.'::('b'::('o'::('o'::('k'::[]))))))))
+                                          then run_book arg
+                                          else if eqb0 cmd
+                                                    ('c'::('1'::('8'::('.'::('f'::('l'::('o'::('a'::('t'::('_'::('g'::('r'::('a'::('m'::('m'::('a'::('r'::[])))))))))))))))))
+                                               then run_float_grammar arg
+                                               else s_tag
+                                                      ('u'::('n'::('k'::('n'::('o'::('w'::('n'::('-'::('c'::('o'::('m'::('m'::('a'::('n'::('d'::[])))))))))))))))
+                                                      ((SAtom cmd) :: [])
